@@ -11,3 +11,1873 @@ Proof.
   - rewrite IH. f_equal. lia.
   - rewrite IH. reflexivity.
 Qed.
+
+(** * Part A — lists: [fill], [residues], sub-lists *)
+
+Lemma residues_count_true k : residues k = count_true k.
+Proof. induction k as [|[] k IH]; cbn [residues count_true]; lia. Qed.
+
+Lemma residues_nonneg' k : 0 <= residues k.
+Proof. induction k as [|[] k IH]; cbn [residues]; lia. Qed.
+
+Lemma residues_app' a b : residues (a ++ b) = residues a + residues b.
+Proof. induction a as [|[] a IH]; cbn [app residues]; lia. Qed.
+
+Lemma residues_rev k : residues (rev k) = residues k.
+Proof.
+  induction k as [|x k IH]; [reflexivity|]. cbn [rev]. rewrite residues_app', IH.
+  destruct x; cbn [residues]; lia.
+Qed.
+
+Lemma residues_le_len k : residues k <= zlen k.
+Proof. induction k as [|[] k IH]; unfold zlen in *; cbn [residues length]; lia. Qed.
+
+Lemma fill_app k1 : forall k2 d1 d2, residues k1 = zlen d1 ->
+  fill (k1 ++ k2) (d1 ++ d2) = fill k1 d1 ++ fill k2 d2.
+Proof.
+  induction k1 as [|[] k1 IH]; intros k2 d1 d2 H; cbn [residues] in H.
+  - symmetry in H. apply zlen_0_nil in H. subst. reflexivity.
+  - destruct d1 as [|x d1]; unfold zlen in H; cbn [length] in H.
+    + pose proof (residues_nonneg' k1). lia.
+    + cbn [app fill]. f_equal. apply IH. unfold zlen. lia.
+  - cbn [app fill]. f_equal. apply IH. exact H.
+Qed.
+
+Lemma fill_length k : forall d, residues k <= zlen d -> zlen (fill k d) = zlen k.
+Proof.
+  induction k as [|[] k IH]; intros d H; cbn [residues] in H.
+  - reflexivity.
+  - destruct d as [|x d]; unfold zlen in *; cbn [length] in *.
+    + pose proof (residues_nonneg' k). lia.
+    + cbn [fill length]. specialize (IH d). lia.
+  - cbn [fill]. unfold zlen in *. cbn [length]. specialize (IH d H). lia.
+Qed.
+
+Lemma fill_map f k : forall d, f GAPC = GAPC -> map f (fill k d) = fill k (map f d).
+Proof.
+  induction k as [|[] k IH]; intros d Hf; [reflexivity| |].
+  - destruct d as [|x d]; [reflexivity|]. cbn [fill map]. f_equal. apply IH, Hf.
+  - cbn [fill map]. rewrite Hf. f_equal. apply IH, Hf.
+Qed.
+
+Lemma fill_firstn k : forall n d,
+  fill (firstn n k) (firstn (Z.to_nat (residues (firstn n k))) d) = firstn n (fill k d).
+Proof.
+  induction k as [|[] k IH]; intros n d.
+  - rewrite firstn_nil. cbn [fill]. now rewrite firstn_nil.
+  - destruct n as [|n]; [reflexivity|]. cbn [firstn residues].
+    pose proof (residues_nonneg' (firstn n k)) as Hn.
+    replace (Z.to_nat (1 + residues (firstn n k))) with (S (Z.to_nat (residues (firstn n k)))) by lia.
+    destruct d as [|x d]; [reflexivity|]. cbn [firstn fill]. f_equal. apply IH.
+  - destruct n as [|n]; [reflexivity|]. cbn [firstn residues fill]. f_equal. apply IH.
+Qed.
+
+Lemma fill_skipn k : forall n d, residues k <= zlen d ->
+  fill (skipn n k) (skipn (Z.to_nat (residues (firstn n k))) d) = skipn n (fill k d).
+Proof.
+  induction k as [|[] k IH]; intros n d H; cbn [residues] in H.
+  - rewrite skipn_nil, firstn_nil. cbn [fill]. now rewrite skipn_nil.
+  - destruct n as [|n]; [reflexivity|]. cbn [firstn residues skipn].
+    pose proof (residues_nonneg' (firstn n k)) as Hn.
+    replace (Z.to_nat (1 + residues (firstn n k))) with (S (Z.to_nat (residues (firstn n k)))) by lia.
+    destruct d as [|x d]; unfold zlen in H; cbn [length] in H.
+    + pose proof (residues_nonneg' k). lia.
+    + cbn [skipn fill]. apply IH. unfold zlen. lia.
+  - destruct n as [|n]; [reflexivity|]. cbn [firstn residues skipn fill]. apply IH. exact H.
+Qed.
+
+Lemma residues_firstn_split k : forall a b : nat, (a <= b)%nat ->
+  residues (firstn b k) = residues (firstn a k) + residues (firstn (b - a) (skipn a k)).
+Proof.
+  induction k as [|x k IH]; intros a b Hab.
+  - rewrite skipn_nil, !firstn_nil. reflexivity.
+  - destruct a as [|a].
+    + cbn [firstn skipn residues]. rewrite Nat.sub_0_r. lia.
+    + destruct b as [|b]; [lia|]. cbn [firstn skipn]. replace (S b - S a)%nat with (b - a)%nat by lia.
+      specialize (IH a b ltac:(lia)). destruct x; cbn [residues]; lia.
+Qed.
+
+(** the headline list fact: cutting columns [a, b) out of a row = cutting the
+    mask and cutting the residues that lie in front of / inside the window *)
+Lemma fill_msub k d a b : residues k <= zlen d -> 0 <= a -> a <= b ->
+  fill (msub k a b) (msub d (residues (firstn (Z.to_nat a) k)) (residues (firstn (Z.to_nat b) k)))
+  = msub (fill k d) a b.
+Proof.
+  intros H Ha Hab. unfold msub.
+  rewrite <- (fill_skipn k (Z.to_nat a) d H).
+  rewrite <- fill_firstn. f_equal. f_equal.
+  pose proof (residues_firstn_split k (Z.to_nat a) (Z.to_nat b) ltac:(lia)) as Hs.
+  replace (Z.to_nat (b - a)) with (Z.to_nat b - Z.to_nat a)%nat by lia.
+  rewrite Hs. f_equal. lia.
+Qed.
+
+Lemma fill_rev k : forall d, residues k = zlen d -> fill (rev k) (rev d) = rev (fill k d).
+Proof.
+  induction k as [|[] k IH]; intros d H; cbn [residues] in H.
+  - symmetry in H. apply zlen_0_nil in H. subst. reflexivity.
+  - destruct d as [|x d]; unfold zlen in H; cbn [length] in H.
+    + pose proof (residues_nonneg' k). lia.
+    + cbn [rev fill]. rewrite fill_app.
+      * rewrite IH by (unfold zlen; lia). reflexivity.
+      * rewrite residues_rev, zlen_rev. unfold zlen. lia.
+  - cbn [rev fill]. replace (rev d) with (rev d ++ []) by apply app_nil_r.
+    rewrite fill_app.
+    + rewrite IH by exact H. reflexivity.
+    + rewrite residues_rev, zlen_rev. exact H.
+Qed.
+
+Lemma residues_mask s : residues (mask s) = zlen (strip s).
+Proof.
+  induction s as [|c s IH]; [reflexivity|]. unfold mask, strip in *. cbn [map filter].
+  destruct (is_res c); cbn [residues]; unfold zlen in *; cbn [length]; lia.
+Qed.
+
+Lemma zlen_mask s : zlen (mask s) = zlen s.
+Proof. unfold mask. apply zlen_map. Qed.
+
+(** * Part B — one row *)
+From CG3 Require Import Proofs.ViewProofs Proofs.ViewSeqProofs.
+From CG3 Require Import Proofs.IndelMapProofs Proofs.IndelMapOps Proofs.IndelMapSlice Proofs.IndelMapIndex Proofs.IndelMapFixedProofs Proofs.IndelMapJoin Proofs.IndelMapShared.
+
+Lemma zlen_cons' {A} (x : A) l : zlen (x :: l) = 1 + zlen l.
+Proof. unfold zlen. cbn [length]. lia. Qed.
+
+Lemma skipn_nth_cons {A} (l : list A) : forall n d, (n < length l)%nat ->
+  skipn n l = nth n l d :: skipn (S n) l.
+Proof.
+  induction l as [|x l IH]; intros n d H; cbn [length] in H; [lia|].
+  destruct n as [|n]; [reflexivity|]. cbn [skipn nth]. apply IH. lia.
+Qed.
+
+Lemma gather_prog_sub {A} (l : list A) : forall n lo, 0 <= lo -> lo + Z.of_nat n <= zlen l ->
+  gather l (prog lo 1 n) = firstn n (skipn (Z.to_nat lo) l).
+Proof.
+  induction n as [|n IH]; intros lo Hlo Hle; [reflexivity|].
+  cbn [prog]. rewrite gather_cons.
+  destruct l as [|x0 l0] eqn:El; [unfold zlen in Hle; cbn [length] in Hle; lia|]. rewrite <- El in *.
+  rewrite (zget_in l lo x0) by lia.
+  rewrite IH by lia.
+  rewrite (skipn_nth_cons l (Z.to_nat lo) x0) by (unfold zlen in Hle; lia).
+  cbn [firstn app]. f_equal. f_equal. f_equal. lia.
+Qed.
+
+Lemma py_slice_msub {A} (l : list A) x y : 0 <= x -> x <= y -> y <= zlen l ->
+  py_slice l (Some x) (Some y) 1 = msub l x y.
+Proof.
+  intros Hx Hxy Hy. destruct (seg_gather l x y ltac:(lia) Hy) as [E _]. unfold seg in E. rewrite E.
+  unfold msub. apply gather_prog_sub; lia.
+Qed.
+
+Lemma zlen_firstn {A} (l : list A) n : zlen (firstn n l) = Z.min (Z.of_nat n) (zlen l).
+Proof. unfold zlen. rewrite firstn_length. lia. Qed.
+
+Lemma zlen_skipn {A} (l : list A) n : zlen (skipn n l) = Z.max 0 (zlen l - Z.of_nat n).
+Proof. unfold zlen. rewrite skipn_length. lia. Qed.
+
+Lemma zlen_msub {A} (l : list A) x y : 0 <= x -> x <= y -> y <= zlen l -> zlen (msub l x y) = y - x.
+Proof. intros. unfold msub. rewrite zlen_firstn, zlen_skipn. lia. Qed.
+
+Lemma msub_full {A} (l : list A) : msub l 0 (zlen l) = l.
+Proof. unfold msub, zlen. cbn [Z.to_nat skipn]. rewrite Z.sub_0_r, Nat2Z.id. apply firstn_all. Qed.
+
+Lemma msub_empty {A} (l : list A) x : msub l x x = [].
+Proof. unfold msub. now rewrite Z.sub_diag. Qed.
+
+Lemma parent_length_residues m : IndelMapSpec.WF m -> parent_length m = residues (abs m).
+Proof.
+  intros H. rewrite residues_count_true. rewrite <- (from_mask_abs m H) at 1. reflexivity.
+Qed.
+
+Lemma residues_firstn_all k : residues (firstn (Z.to_nat (zlen k)) k) = residues k.
+Proof. unfold zlen. rewrite Nat2Z.id, firstn_all. reflexivity. Qed.
+
+Lemma residues_firstn_le k n : residues (firstn n k) <= residues k.
+Proof.
+  rewrite <- (firstn_skipn n k) at 2. rewrite residues_app'. pose proof (residues_nonneg' (skipn n k)). lia.
+Qed.
+
+Lemma residues_msub k a b : 0 <= a -> a <= b ->
+  residues (msub k a b) = residues (firstn (Z.to_nat b) k) - residues (firstn (Z.to_nat a) k).
+Proof.
+  intros Ha Hab. unfold msub.
+  pose proof (residues_firstn_split k (Z.to_nat a) (Z.to_nat b) ltac:(lia)) as Hs.
+  replace (Z.to_nat (b - a)) with (Z.to_nat b - Z.to_nat a)%nat by lia. lia.
+Qed.
+
+(** the map slice in range, whichever variant of [IndelMap.__getitem__] is live *)
+Lemma imap_slice_in_range vr m a b : IndelMapSpec.WF m -> 0 <= a -> a <= b -> b <= len m ->
+  exists m', imap_slice vr m (Some a) (Some b) = Ok m' /\ IndelMapSpec.WF m' /\ abs m' = msub (abs m) a b.
+Proof.
+  intros Hwf Ha Hab Hb. unfold imap_slice. destruct (v_clamp vr).
+  - unfold getitem_slice_v2.
+    replace (a >=? 0) with true by lia. replace (b >=? 0) with true by lia.
+    replace (Z.min a b <? 0) with false by lia. replace (Z.min b (len m)) with b by lia.
+    apply slice_spec; assumption.
+  - apply slice_spec; assumption.
+Qed.
+
+(** [data[x:y]] displays the sub-list, and stays well formed *)
+Lemma seq_slice_spec d x y : SWF d -> 0 <= x -> x <= y -> y <= zlen (realise d) ->
+  exists d', seq_slice d (Some x) (Some y) = Ok d' /\ SWF d' /\ skind d' = skind d /\
+             realise d' = msub (realise d) x y.
+Proof.
+  intros Hd Hx Hxy Hy. unfold seq_slice. cbn [View.apply_op].
+  pose proof (slice_op_spec d (Some x) (Some y) None Hd ltac:(discriminate)) as H.
+  destruct (with_view d (same_parent (sv d)) (View.getitem_slice FSeqView (sv d) (Some x) (Some y) None)) as [d'|e];
+    [|contradiction].
+  destruct H as (Hs & Hk & Hr). exists d'. cbn [of_view]. split; [reflexivity|]. split; [exact Hs|]. split; [exact Hk|].
+  rewrite Hr. cbn [step_of]. replace (1 <? 0) with false by lia. apply py_slice_msub; assumption.
+Qed.
+
+(** [data[:0]] *)
+Lemma seq_slice_empty d : SWF d ->
+  exists d', seq_slice d None (Some 0) = Ok d' /\ SWF d' /\ skind d' = skind d /\ realise d' = [].
+Proof.
+  intros Hd. unfold seq_slice. cbn [View.apply_op].
+  pose proof (slice_op_spec d None (Some 0) None Hd ltac:(discriminate)) as H.
+  destruct (with_view d (same_parent (sv d)) (View.getitem_slice FSeqView (sv d) None (Some 0) None)) as [d'|e];
+    [|contradiction].
+  destruct H as (Hs & Hk & Hr). exists d'. cbn [of_view]. split; [reflexivity|]. split; [exact Hs|]. split; [exact Hk|].
+  rewrite Hr. cbn [step_of]. replace (1 <? 0) with false by lia.
+  apply zlen_0_nil. rewrite length_py_slice by lia.
+  unfold adjust_bound.
+  replace (1 <? 0) with false by lia. replace (0 <? 0) with false by lia.
+  pose proof (zlen_nonneg (realise d)) as Hn.
+  destruct (0 >=? zlen (realise d)) eqn:E.
+  - assert (H0 : zlen (realise d) = 0) by lia. rewrite H0. reflexivity.
+  - unfold range_len. reflexivity.
+Qed.
+
+Lemma zlen_abs_len m : IndelMapSpec.WF m -> zlen (abs m) = len m.
+Proof. intros H. symmetry. apply len_spec. exact H. Qed.
+
+Lemma row_slice_finish m d nm d' a b :
+  IndelMapSpec.WF m -> parent_length m = zlen (realise d) ->
+  IndelMapSpec.WF nm -> abs nm = msub (abs m) a b -> SWF d' ->
+  realise d' = msub (realise d) (residues (firstn (Z.to_nat a) (abs m))) (residues (firstn (Z.to_nat b) (abs m))) ->
+  0 <= a -> a <= b -> b <= len m ->
+  RowWF (mkRow nm d') /\ row_str (mkRow nm d') = msub (row_str (mkRow m d)) a b.
+Proof.
+  intros Hm Hp Hnm Habs Hd' Hr Ha Hab Hb.
+  pose proof (parent_length_residues m Hm) as Hpr.
+  pose proof (residues_firstn_mono (abs m) a b Ha Hab) as Hmono.
+  pose proof (residues_nonneg' (firstn (Z.to_nat a) (abs m))) as H0.
+  pose proof (residues_firstn_le (abs m) (Z.to_nat b)) as Hle.
+  split.
+  - split; [exact Hnm|]. split; [exact Hd'|]. cbn [amap adata].
+    rewrite (parent_length_residues nm Hnm), Habs, residues_msub by lia.
+    rewrite Hr, zlen_msub by lia. reflexivity.
+  - unfold row_str. cbn [amap adata]. rewrite Habs, Hr. apply fill_msub; lia.
+Qed.
+
+(** HEADLINE (row): slicing a row by alignment columns [a, b) *)
+Lemma row_slice_in_range vr r a b : RowWF r -> 0 <= a -> a <= b -> b <= row_len r ->
+  exists r', row_getitem_slice vr r (Some a) (Some b) = Ok r' /\ RowWF r' /\
+             skind (adata r') = skind (adata r) /\ row_str r' = msub (row_str r) a b.
+Proof.
+  intros (Hm & Hd & Hp) Ha Hab Hb. unfold row_len in Hb. destruct r as [m d]. cbn [amap adata] in *.
+  unfold row_getitem_slice. cbn [amap adata].
+  destruct (imap_slice_in_range vr m a b Hm Ha Hab Hb) as (nm & E1 & Hnm & Habs). rewrite E1. cbn [bind or0].
+  rewrite (get_seq_index_spec m Hm a) by lia. cbn [bind].
+  pose proof (parent_length_residues m Hm) as Hpr.
+  pose proof (parent_length_residues nm Hnm) as Hpn. rewrite Habs, residues_msub in Hpn by lia.
+  pose proof (residues_firstn_mono (abs m) a b Ha Hab) as Hmono.
+  pose proof (residues_nonneg' (firstn (Z.to_nat a) (abs m))) as H0.
+  pose proof (residues_firstn_le (abs m) (Z.to_nat b)) as Hle.
+  destruct (Z.eq_dec b 0) as [->|Hb0].
+  - (* [span.stop or len(self)] takes the other branch; the map slice is empty *)
+    assert (a = 0) by lia. subst a. cbn [or_len]. replace (0 =? 0) with true by reflexivity.
+    rewrite (get_seq_index_spec m Hm (len m)) by (pose proof (zlen_nonneg (abs m)); rewrite (zlen_abs_len m Hm) in *; lia).
+    cbn [bind]. cbn [Z.to_nat firstn residues] in Hpn. replace (parent_length nm =? 0) with true by lia. cbn [negb].
+    destruct (seq_slice_empty d Hd) as (d' & E2 & Hd' & Hk & Hr). rewrite E2. cbn [bind andb].
+    exists (mkRow nm d'). split; [reflexivity|].
+    destruct (row_slice_finish m d nm d' 0 0 Hm Hp Hnm Habs Hd') as [W S]; try lia.
+    { rewrite Hr. cbn [Z.to_nat firstn residues]. symmetry. apply msub_empty. }
+    split; [exact W|]. split; [exact Hk|exact S].
+  - cbn [or_len]. replace (b =? 0) with false by lia.
+    rewrite (get_seq_index_spec m Hm b) by lia. cbn [bind].
+    destruct (parent_length nm =? 0) eqn:Eu; cbn [negb].
+    + destruct (seq_slice_empty d Hd) as (d' & E2 & Hd' & Hk & Hr). rewrite E2. cbn [bind andb].
+      exists (mkRow nm d'). split; [reflexivity|].
+      destruct (row_slice_finish m d nm d' a b Hm Hp Hnm Habs Hd') as [W S]; try lia.
+      { rewrite Hr. replace (residues (firstn (Z.to_nat b) (abs m))) with (residues (firstn (Z.to_nat a) (abs m))) by lia.
+        symmetry. apply msub_empty. }
+      split; [exact W|]. split; [exact Hk|exact S].
+    + destruct (seq_slice_spec d _ _ Hd H0 Hmono ltac:(lia)) as (d' & E2 & Hd' & Hk & Hr). rewrite E2. cbn [bind andb].
+      replace (_ >? _) with false by lia.
+      exists (mkRow nm d'). split; [reflexivity|].
+      destruct (row_slice_finish m d nm d' a b Hm Hp Hnm Habs Hd' Hr) as [W S]; try lia.
+      split; [exact W|]. split; [exact Hk|exact S].
+Qed.
+
+(** ** [get_gapped_seq]: the spans of the map applied to the displayed sequence
+    spell exactly the row the abstraction function assigns *)
+
+Fixpoint tiled (p : Z) (sp : list ispan) (q : Z) : Prop :=
+  match sp with
+  | [] => p = q
+  | ISpan a b :: t => a = p /\ a <= b /\ tiled b t q
+  | ILost n :: t => 0 <= n /\ tiled p t q
+  end.
+
+Lemma tiled_app sp1 : forall p x sp2 q, tiled p sp1 x -> tiled x sp2 q -> tiled p (sp1 ++ sp2) q.
+Proof.
+  induction sp1 as [|[a b|n] sp1 IH]; intros p x sp2 q H1 H2; cbn [tiled app] in *.
+  - subst. exact H2.
+  - destruct H1 as (E & L & H1). repeat split; try assumption. eapply IH; eauto.
+  - destruct H1 as (L & H1). split; [assumption|]. eapply IH; eauto.
+Qed.
+
+Lemma tiled_le sp : forall p q, tiled p sp q -> p <= q.
+Proof.
+  induction sp as [|[a b|n] sp IH]; intros p q H; cbn [tiled] in H.
+  - lia.
+  - destruct H as (E & L & H). apply IH in H. lia.
+  - destruct H as (L & H). apply IH in H. exact H.
+Qed.
+
+Lemma spans_loop_tiled gp : forall pp pc cl plen, wf_from pp pc gp cl plen -> 0 <= pp ->
+  tiled pp (spans_loop pp pc gp cl) (lastd pp gp).
+Proof.
+  induction gp as [|p gp IH]; intros pp pc cl plen H Hpp; destruct cl as [|c cl]; cbn [wf_from] in H.
+  - reflexivity.
+  - tauto.
+  - tauto.
+  - destruct H as (A & B & H). cbn [spans_loop lastd].
+    assert (E : p =? 0 = false) by lia. rewrite E. cbn [app tiled].
+    split; [reflexivity|]. split; [lia|]. split; [lia|]. apply (IH p c cl plen H). lia.
+Qed.
+
+Lemma spans_tiled m : IndelMapSpec.WF m -> tiled 0 (spans m) (parent_length m).
+Proof.
+  intros H. apply WF_wf0 in H.
+  pose proof (wf0_lastd _ _ _ _ _ H) as Hlast.
+  unfold spans, num_gaps.
+  destruct (wf0_inv _ _ _ _ _ H) as [(E1 & E2 & Hle)|(p & c & gp' & cl' & E1 & E2 & Hp & Hc & Hw)].
+  - rewrite E1. change (zlen (@nil Z) =? 0) with true. cbv iota. cbn [tiled]. repeat split; lia.
+  - rewrite E1, E2 in *. rewrite zlen_cons'. pose proof (zlen_nonneg gp') as Hn.
+    assert (E : 1 + zlen gp' =? 0 = false) by lia. rewrite E.
+    rewrite (zlast_lastd 0).
+    apply (tiled_app _ 0 (lastd 0 (p :: gp'))).
+    + destruct (Z.eq_dec p 0) as [->|Hp0].
+      * cbn [spans_loop lastd]. change (0 =? 0) with true. cbv iota. cbn [app tiled].
+        split; [lia|]. apply (spans_loop_tiled gp' 0 c cl' _ Hw). lia.
+      * apply (spans_loop_tiled (p :: gp') 0 0 (c :: cl') (parent_length m)); [|lia].
+        cbn [wf_from]. split; [lia|]. split; [lia|]. exact Hw.
+    + destruct (lastd 0 (p :: gp') <? parent_length m) eqn:Elt; cbn [tiled].
+      * repeat split; lia.
+      * lia.
+Qed.
+
+Lemma fill_trues l : fill (repeat true (length l)) l = l.
+Proof. induction l as [|x l IH]; [reflexivity|]. cbn [length repeat fill]. now rewrite IH. Qed.
+
+Lemma fill_falses n : fill (repeat false n) [] = repeat GAPC n.
+Proof. induction n as [|n IH]; [reflexivity|]. cbn [repeat fill]. now rewrite IH. Qed.
+
+Lemma firstn_plus {A} (l : list A) : forall n1 n2, firstn (n1 + n2) l = firstn n1 l ++ firstn n2 (skipn n1 l).
+Proof.
+  induction l as [|x l IH]; intros n1 n2.
+  - rewrite skipn_nil, !firstn_nil. reflexivity.
+  - destruct n1 as [|n1]; [reflexivity|]. cbn [Nat.add firstn skipn app]. f_equal. apply IH.
+Qed.
+
+Lemma skipn_plus {A} (l : list A) : forall n1 n2, skipn n2 (skipn n1 l) = skipn (n1 + n2) l.
+Proof.
+  induction l as [|x l IH]; intros n1 n2.
+  - now rewrite !skipn_nil.
+  - destruct n1 as [|n1]; [reflexivity|]. cbn [Nat.add skipn]. apply IH.
+Qed.
+
+Lemma msub_split {A} (l : list A) p b q : 0 <= p -> p <= b -> b <= q ->
+  msub l p q = msub l p b ++ msub l b q.
+Proof.
+  intros Hp Hb Hq. unfold msub.
+  replace (Z.to_nat (q - p)) with (Z.to_nat (b - p) + Z.to_nat (q - b))%nat by lia.
+  rewrite firstn_plus. f_equal. f_equal. rewrite skipn_plus. f_equal. lia.
+Qed.
+
+(** segments of the data read through the spans = the span masks filled with the data *)
+Lemma tiled_fill (pc : Z -> Z -> list Z) (D : list Z) sp : forall p q,
+  (forall a b, 0 <= a -> a <= b -> b <= zlen D -> pc a b = msub D a b) ->
+  tiled p sp q -> 0 <= p -> q <= zlen D ->
+  concat (map (fun s => match s with ISpan a b => pc a b | ILost n => repeat GAPC (Z.to_nat n) end) sp)
+  = fill (concat (map span_mask sp)) (msub D p q).
+Proof.
+  induction sp as [|[a b|n] sp IH]; intros p q Hpc H Hp Hq; cbn [tiled] in H.
+  - subst. rewrite msub_empty. reflexivity.
+  - destruct H as (-> & L & H). pose proof (tiled_le _ _ _ H) as Hbq.
+    cbn [map concat span_mask]. rewrite (msub_split D p b q) by lia.
+    rewrite fill_app.
+    + rewrite Hpc by lia. rewrite <- (IH b q Hpc H) by lia. f_equal.
+      replace (Z.to_nat (b - p)) with (length (msub D p b)).
+      * apply eq_sym, fill_trues.
+      * pose proof (zlen_msub D p b Hp L ltac:(lia)) as Hl. unfold zlen in Hl. lia.
+    + rewrite residues_trues, zlen_msub by lia. lia.
+  - destruct H as (L & H). cbn [map concat span_mask].
+    replace (msub D p q) with ([] ++ msub D p q) by reflexivity.
+    rewrite fill_app by (rewrite residues_falses; reflexivity).
+    rewrite fill_falses. f_equal. apply IH; assumption.
+Qed.
+
+Lemma seq_piece_spec d a b : SWF d -> 0 <= a -> a <= b -> b <= zlen (realise d) ->
+  seq_piece d a b = msub (realise d) a b.
+Proof.
+  intros Hd Ha Hab Hb. unfold seq_piece.
+  destruct (seq_slice_spec d a b Hd Ha Hab Hb) as (d' & E & _ & _ & Hr). rewrite E. exact Hr.
+Qed.
+
+(** HEADLINE (row): [get_gapped_seq] / [str(Aligned)] is the mask filled with the residues *)
+Lemma row_gapped_spec r : RowWF r -> row_gapped r = row_str r.
+Proof.
+  intros (Hm & Hd & Hp). unfold row_gapped, row_str.
+  pose proof (spans_tiled _ Hm) as Ht.
+  rewrite <- (spans_mask_spec _ Hm). unfold spans_mask.
+  assert (E : realise (adata r) = msub (realise (adata r)) 0 (parent_length (amap r))).
+  { rewrite Hp. symmetry. apply msub_full. }
+  rewrite E at 1.
+  rewrite <- (tiled_fill (seq_piece (adata r)) (realise (adata r)) (spans (amap r)) 0 (parent_length (amap r))); try lia.
+  - reflexivity.
+  - intros a b Ha Hab Hb. apply seq_piece_spec; assumption.
+  - exact Ht.
+Qed.
+
+(** ** a row built from a gapped string denotes that string *)
+Lemma row_of_string_spec k s :
+  exists r, row_of_string k s = Ok r /\ RowWF r /\ skind (adata r) = k /\ row_str r = s.
+Proof.
+  unfold row_of_string. destruct (fresh_spec k (strip s)) as (d & E & Hd & Hr & Hk). rewrite E. cbn [of_view bind].
+  eexists. split; [reflexivity|]. split; [|split; [exact Hk|]].
+  - split; [apply wf_from_mask|]. split; [exact Hd|]. cbn [amap adata]. rewrite Hr.
+    change (parent_length (from_mask (mask s))) with (count_true (mask s)).
+    rewrite <- residues_count_true. apply residues_mask.
+  - unfold row_str. cbn [amap adata]. rewrite abs_from_mask, Hr. apply fill_mask_strip.
+Qed.
+
+Lemma comp_gap k : comp k GAPC = GAPC.
+Proof. destruct k; reflexivity. Qed.
+
+(** ** reverse complement of a row *)
+Lemma row_rc_spec r : RowWF r -> skind (adata r) <> KOther ->
+  exists r', row_rc r = Ok r' /\ RowWF r' /\ skind (adata r') = skind (adata r) /\
+             row_str r' = rc_str (skind (adata r)) (row_str r).
+Proof.
+  intros (Hm & Hd & Hp) Hk. unfold row_rc.
+  destruct (nrev_spec _ Hm) as (nm & E1 & Hnm & Habs). rewrite E1. cbn [bind].
+  pose proof (apply_op_spec Fixed (adata r) Rc Hd I) as H.
+  destruct (View.apply_op Fixed (adata r) Rc) as [d'|e]; cbn [of_view bind].
+  - destruct H as [Hd' Hs]. unfold plain_of in Hs. cbn [spec_op] in Hs.
+    destruct (ViewSpec.nucleic (skind (adata r))) eqn:En; [|discriminate].
+    injection Hs as Hr Hk'.
+    exists (mkRow nm d'). split; [reflexivity|].
+    pose proof (parent_length_residues _ Hm) as Hpr.
+    split; [|split; [symmetry; exact Hk'|]].
+    + split; [exact Hnm|]. split; [exact Hd'|]. cbn [amap adata].
+      rewrite (parent_length_residues nm Hnm), Habs, residues_rev, <- Hr, zlen_map, zlen_rev. lia.
+    + unfold row_str, rc_str. cbn [amap adata]. rewrite Habs, <- Hr.
+      rewrite <- fill_map by apply comp_gap. f_equal. apply fill_rev. lia.
+  - exfalso. unfold plain_of in H. cbn [spec_op] in H. destruct (skind (adata r)); cbn in H; try discriminate. now apply Hk.
+Qed.
+
+(** ** concatenation of two rows (the branch that joins the gapped strings) *)
+Lemma row_add_spec vr same r1 r2 : RowWF r1 -> RowWF r2 -> (same = false \/ v_noshortcut vr = true) ->
+  exists r, row_add vr same r1 r2 = Ok r /\ RowWF r /\ skind (adata r) = skind (adata r1) /\
+            row_str r = row_str r1 ++ row_str r2.
+Proof.
+  intros H1 H2 Hc. unfold row_add.
+  assert (E : same && negb (v_noshortcut vr) = false) by (destruct Hc as [-> | ->]; [reflexivity|apply andb_false_r]).
+  rewrite E. rewrite (row_gapped_spec r1 H1), (row_gapped_spec r2 H2). apply row_of_string_spec.
+Qed.
+
+(** ** DNA <-> RNA *)
+Lemma row_to_kind_spec r target : RowWF r -> skind (adata r) <> KOther -> target <> KOther ->
+  exists r', row_to_kind r target = Ok r' /\ RowWF r' /\ skind (adata r') = target /\
+             row_str r' = (match skind (adata r), target with
+                           | KDna, KRna => t2u_str (row_str r)
+                           | KRna, KDna => u2t_str (row_str r)
+                           | _, _ => row_str r end).
+Proof.
+  intros (Hm & Hd & Hp) Hk Ht. unfold row_to_kind, to_moltype.
+  destruct (skind (adata r)) eqn:Ek; destruct target eqn:Et; try congruence; cbn [of_view bind].
+  - exists r. split; [destruct r; reflexivity|]. split; [split; [exact Hm|split; assumption]|]. split; [exact Ek|reflexivity].
+  - destruct (fresh_spec KRna (map t2u (realise (adata r)))) as (d' & E & Hd' & Hr & Hk'). rewrite E. cbn [of_view bind].
+    eexists. split; [reflexivity|]. split; [|split; [exact Hk'|]].
+    + split; [exact Hm|]. split; [exact Hd'|]. cbn [amap adata]. rewrite Hr, zlen_map. exact Hp.
+    + unfold row_str, t2u_str. cbn [amap adata]. rewrite Hr. symmetry. apply fill_map. reflexivity.
+  - destruct (fresh_spec KDna (map u2t (realise (adata r)))) as (d' & E & Hd' & Hr & Hk'). rewrite E. cbn [of_view bind].
+    eexists. split; [reflexivity|]. split; [|split; [exact Hk'|]].
+    + split; [exact Hm|]. split; [exact Hd'|]. cbn [amap adata]. rewrite Hr, zlen_map. exact Hp.
+    + unfold row_str, u2t_str. cbn [amap adata]. rewrite Hr. symmetry. apply fill_map. reflexivity.
+  - exists r. split; [destruct r; reflexivity|]. split; [split; [exact Hm|split; assumption]|]. split; [exact Ek|reflexivity].
+Qed.
+
+Lemma zlen_row_str r : RowWF r -> zlen (row_str r) = row_len r.
+Proof.
+  intros (Hm & Hd & Hp). unfold row_str, row_len. rewrite fill_length.
+  - apply zlen_abs_len, Hm.
+  - rewrite <- (parent_length_residues _ Hm). lia.
+Qed.
+
+(** ** integer index (non-negative, in range; negative too once repaired) *)
+Lemma row_getitem_int_spec vr r i : RowWF r -> 0 <= i < row_len r ->
+  exists r', row_getitem_int vr r i = Ok r' /\ RowWF r' /\ skind (adata r') = skind (adata r) /\
+             row_str r' = ssub (row_str r) i (i + 1).
+Proof.
+  intros Hr Hi. unfold row_getitem_int.
+  replace (i <? 0) with false by lia. replace (i <? 0) with false by lia.
+  destruct (v_negidx vr); apply (row_slice_in_range vr r i (i + 1) Hr); lia.
+Qed.
+
+Lemma row_getitem_int_neg vr r i : RowWF r -> v_negidx vr = true -> - row_len r <= i < 0 ->
+  exists r', row_getitem_int vr r i = Ok r' /\ RowWF r' /\ skind (adata r') = skind (adata r) /\
+             row_str r' = ssub (row_str r) (i + row_len r) (i + row_len r + 1).
+Proof.
+  intros Hr Hv Hi. unfold row_getitem_int. rewrite Hv.
+  replace (i <? 0) with true by lia. replace (i + row_len r <? 0) with false by lia.
+  apply (row_slice_in_range vr r (i + row_len r) (i + row_len r + 1) Hr); lia.
+Qed.
+
+(** ** a row indexed by the feature map [filtered] builds: the pieces glued together *)
+From CG3 Require Import Proofs.IndelMapBounded Spec.IndelMapStringOps.
+
+Definition seqc (k : list bool) (cs : list (Z * Z)) : list (Z * Z) :=
+  map (fun se => (residues (firstn (Z.to_nat (fst se)) k), residues (firstn (Z.to_nat (snd se)) k))) cs.
+
+Lemma make_seq_coords_spec m cs : forall start, IndelMapSpec.WF m -> 0 <= start -> segs_ok start (len m) cs ->
+  make_seq_coords m cs = Ok (seqc (abs m) cs).
+Proof.
+  induction cs as [|[a b] t IH]; intros start Hm Hs Hok; [reflexivity|].
+  cbn [segs_ok] in Hok. destruct Hok as (A & B & D & Hok).
+  cbn [make_seq_coords seqc map fst snd].
+  rewrite (get_seq_index_spec m Hm a) by lia. cbn [bind].
+  rewrite (get_seq_index_spec m Hm b) by lia. cbn [bind].
+  rewrite (IH b Hm ltac:(lia) Hok). reflexivity.
+Qed.
+
+Lemma join_fill k D cs : forall start, residues k = zlen D -> 0 <= start -> segs_ok start (zlen k) cs ->
+  residues (mask_join k cs) = zlen (flat_map (fun se => msub D (fst se) (snd se)) (seqc k cs)) /\
+  fill (mask_join k cs) (flat_map (fun se => msub D (fst se) (snd se)) (seqc k cs))
+  = flat_map (fun se => msub (fill k D) (fst se) (snd se)) cs.
+Proof.
+  induction cs as [|[a b] t IH]; intros start HD Hs Hok; [split; reflexivity|].
+  cbn [segs_ok] in Hok. destruct Hok as (A & B & C & Hok).
+  destruct (IH b HD ltac:(lia) Hok) as [IH1 IH2].
+  unfold mask_join in *. cbn [flat_map seqc map fst snd].
+  fold (msub k a b).
+  pose proof (residues_firstn_mono k a b ltac:(lia) ltac:(lia)) as Hmono.
+  pose proof (residues_nonneg' (firstn (Z.to_nat a) k)) as H0.
+  pose proof (residues_firstn_le k (Z.to_nat b)) as Hle.
+  assert (E : residues (msub k a b) = zlen (msub D (residues (firstn (Z.to_nat a) k)) (residues (firstn (Z.to_nat b) k)))).
+  { rewrite residues_msub, zlen_msub by lia. reflexivity. }
+  split.
+  - rewrite residues_app', zlen_app. fold (seqc k t). lia.
+  - fold (seqc k t). rewrite fill_app by exact E. rewrite IH2. f_equal. apply fill_msub; lia.
+Qed.
+
+Lemma pieces_spec d sc : SWF d -> Forall (fun se => 0 <= fst se /\ fst se <= snd se /\ snd se <= zlen (realise d)) sc ->
+  flat_map (fun se => seq_piece d (fst se) (snd se)) sc = flat_map (fun se => msub (realise d) (fst se) (snd se)) sc.
+Proof.
+  intros Hd H. induction H as [|se t (A & B & C) _ IH]; [reflexivity|].
+  cbn [flat_map]. rewrite IH. f_equal. apply seq_piece_spec; assumption.
+Qed.
+
+Lemma seqc_in_range k cs : forall start, 0 <= start -> segs_ok start (zlen k) cs ->
+  Forall (fun se => 0 <= fst se /\ fst se <= snd se /\ snd se <= residues k) (seqc k cs).
+Proof.
+  induction cs as [|[a b] t IH]; intros start Hs Hok; [constructor|].
+  cbn [segs_ok] in Hok. destruct Hok as (A & B & C & Hok).
+  cbn [seqc map fst snd]. constructor.
+  - cbn [fst snd]. split; [apply residues_nonneg'|]. split; [apply residues_firstn_mono; lia|apply residues_firstn_le].
+  - apply (IH b); [lia|exact Hok].
+Qed.
+
+Lemma row_getitem_locs_spec vr r locs : RowWF r -> locs <> [] -> segs_ok 0 (row_len r) locs ->
+  exists r', row_getitem_locs vr r locs = Ok r' /\ RowWF r' /\ skind (adata r') = skind (adata r) /\
+             row_str r' = flat_map (fun se => ssub (row_str r) (fst se) (snd se)) locs.
+Proof.
+  intros Hr Hne Hok. pose proof Hr as (Hm & Hd & Hp). unfold row_len in Hok.
+  pose proof (parent_length_residues _ Hm) as Hpr.
+  destruct locs as [|[s e] [|se2 t]]; [congruence| |].
+  - (* one span: a slice *)
+    cbn [segs_ok] in Hok. destruct Hok as (A & B & C & _).
+    destruct r as [m d]. cbn [amap adata] in *. unfold row_getitem_locs. cbn [amap adata].
+    destruct (imap_slice_in_range vr m s e Hm A ltac:(lia) C) as (nm & E1 & Hnm & Habs). rewrite E1. cbn [bind].
+    rewrite (get_seq_index_spec m Hm s) by lia. cbn [bind].
+    rewrite (get_seq_index_spec m Hm e) by lia. cbn [bind].
+    pose proof (residues_firstn_mono (abs m) s e A ltac:(lia)) as Hmono.
+    pose proof (residues_nonneg' (firstn (Z.to_nat s) (abs m))) as H0.
+    pose proof (residues_firstn_le (abs m) (Z.to_nat e)) as Hle.
+    destruct (seq_slice_spec d _ _ Hd H0 Hmono ltac:(lia)) as (d' & E2 & Hd' & Hk & Hrr). rewrite E2. cbn [bind].
+    exists (mkRow nm d'). split; [reflexivity|].
+    destruct (row_slice_finish m d nm d' s e Hm Hp Hnm Habs Hd' Hrr) as [W S]; try lia.
+    split; [exact W|]. split; [exact Hk|]. cbn [flat_map fst snd]. rewrite app_nil_r. exact S.
+  - (* several spans *)
+    set (locs := (s, e) :: se2 :: t) in *.
+    unfold row_getitem_locs. fold locs.
+    assert (Hj : joined_segments (amap r) locs = Ok (from_mask (mask_join (abs (amap r)) locs))).
+    { rewrite <- (from_mask_abs _ Hm) at 1. apply joined_segments_spec. rewrite (zlen_abs_len _ Hm). exact Hok. }
+    replace (match locs with [] => Err E_Other | [(s0, e0)] => _ | _ => _ end)
+      with (bind (joined_segments (amap r) locs) (fun nm =>
+            bind (make_seq_coords (amap r) locs) (fun sc =>
+            bind (of_view (fresh (skind (adata r)) (flat_map (fun se => seq_piece (adata r) (fst se) (snd se)) sc))) (fun d =>
+            Ok (mkRow nm d))))) by reflexivity.
+    rewrite Hj. cbn [bind].
+    rewrite (make_seq_coords_spec _ locs 0 Hm ltac:(lia) Hok). cbn [bind].
+    assert (Hok' : segs_ok 0 (zlen (abs (amap r))) locs) by (rewrite (zlen_abs_len _ Hm); exact Hok).
+    rewrite (pieces_spec (adata r) _ Hd).
+    2:{ rewrite <- Hp, Hpr. apply (seqc_in_range _ _ 0); [lia|exact Hok']. }
+    destruct (fresh_spec (skind (adata r)) (flat_map (fun se => msub (realise (adata r)) (fst se) (snd se)) (seqc (abs (amap r)) locs)))
+      as (d' & E & Hd' & Hrr & Hk). rewrite E. cbn [of_view bind].
+    destruct (join_fill (abs (amap r)) (realise (adata r)) locs 0 ltac:(lia) ltac:(lia) Hok') as [J1 J2].
+    eexists. split; [reflexivity|]. split; [|split; [exact Hk|]].
+    + split; [apply wf_from_mask|]. split; [exact Hd'|]. cbn [amap adata]. rewrite Hrr.
+      change (parent_length (from_mask (mask_join (abs (amap r)) locs))) with (count_true (mask_join (abs (amap r)) locs)).
+      rewrite <- residues_count_true. exact J1.
+    + unfold row_str at 1. cbn [amap adata]. rewrite abs_from_mask, Hrr. exact J2.
+Qed.
+
+(** * Part C — alignments *)
+
+Lemma mapM_ok {A B} (f : A -> res B) (h : A -> B) l :
+  (forall x, In x l -> f x = Ok (h x)) -> mapM f l = Ok (map h l).
+Proof.
+  induction l as [|x l IH]; intros H; [reflexivity|].
+  cbn [mapM map]. rewrite (H x (or_introl eq_refl)). cbn [bind].
+  rewrite IH by (intros y Hy; apply H; right; exact Hy). reflexivity.
+Qed.
+
+Lemma mapM_exists {A B} (f : A -> res B) (P : A -> B -> Prop) l :
+  (forall x, In x l -> exists y, f x = Ok y /\ P x y) ->
+  exists ys, mapM f l = Ok ys /\ Forall2 P l ys.
+Proof.
+  induction l as [|x l IH]; intros H.
+  - exists []. split; [reflexivity|constructor].
+  - destruct (H x (or_introl eq_refl)) as (y & Ey & Py).
+    destruct IH as (ys & Eys & Pys); [intros z Hz; apply H; right; exact Hz|].
+    exists (y :: ys). cbn [mapM]. rewrite Ey. cbn [bind]. rewrite Eys. cbn [bind].
+    split; [reflexivity|constructor; assumption].
+Qed.
+
+Definition uniform (g : list Z -> list Z) : Prop := forall s1 s2, zlen s1 = zlen s2 -> zlen (g s1) = zlen (g s2).
+
+Lemma rect_cons n s t : rect ((n, s) :: t) <-> Forall (fun nr => zlen (snd nr) = zlen s) t.
+Proof.
+  unfold rect, all_len. cbn [slen]. split.
+  - intros H. inversion H; assumption.
+  - intros H. constructor; [reflexivity|assumption].
+Qed.
+
+Lemma all_len_map_rows g n a : uniform g -> all_len n a -> forall s0, zlen s0 = n -> all_len (zlen (g s0)) (map_rows g a).
+Proof.
+  intros Hu H s0 Hs0. unfold all_len, map_rows in *. rewrite Forall_map. eapply Forall_impl; [|exact H].
+  intros [nm s] Hs. cbn [fst snd] in *. apply Hu. lia.
+Qed.
+
+Lemma rect_map_rows g a : uniform g -> rect a -> rect (map_rows g a).
+Proof.
+  intros Hu H. destruct a as [|[n s] t]; [constructor|].
+  unfold rect in *. cbn [map_rows map slen fst snd] in *.
+  apply (all_len_map_rows g (zlen s) ((n, s) :: t) Hu H s eq_refl).
+Qed.
+
+Lemma one_length_rect a : a <> [] -> Forall (fun nr => RowWF (snd nr)) a -> rect (astr a) -> one_length a = true.
+Proof.
+  intros Hne Hwf Hr. destruct a as [|[n r] t]; [congruence|].
+  cbn [one_length]. apply forallb_forall. intros [n' r'] Hin. cbn [snd].
+  cbn [astr map fst snd] in Hr. apply rect_cons in Hr.
+  rewrite Forall_forall in Hr. specialize (Hr (n', row_str r')).
+  rewrite Forall_forall in Hwf.
+  pose proof (Hwf (n, r) (or_introl eq_refl)) as W0. pose proof (Hwf (n', r') (or_intror Hin)) as W1. cbn [snd] in *.
+  rewrite <- (zlen_row_str r W0), <- (zlen_row_str r' W1).
+  apply Z.eqb_eq. apply Hr. apply (in_map (fun nr => (fst nr, row_str (snd nr))) t (n', r')). exact Hin.
+Qed.
+
+Lemma mk_align_ok a k : a <> [] -> Forall (fun nr => RowWF (snd nr) /\ skind (adata (snd nr)) = k) a -> rect (astr a) ->
+  mk_align a = Ok a /\ AlnWF a /\ al_kind a = k.
+Proof.
+  intros Hne Hwf Hr.
+  assert (Hk : al_kind a = k).
+  { destruct a as [|[n r] t]; [congruence|]. cbn [al_kind]. apply Forall_inv in Hwf. cbn [snd] in Hwf. apply Hwf. }
+  unfold mk_align. rewrite one_length_rect; try assumption.
+  - split; [reflexivity|]. split; [|exact Hk]. split; [exact Hne|]. split; [|exact Hr].
+    rewrite Hk. exact Hwf.
+  - eapply Forall_impl; [|exact Hwf]. intros x [H _]. exact H.
+Qed.
+
+(** every row-wise operation at once *)
+Lemma map_rowsM_spec (f : arow -> res arow) (g : list Z -> list Z) k' a :
+  AlnWF a -> uniform g ->
+  (forall r, RowWF r -> skind (adata r) = al_kind a -> zlen (row_str r) = slen (astr a) ->
+             exists r', f r = Ok r' /\ RowWF r' /\ skind (adata r') = k' /\ row_str r' = g (row_str r)) ->
+  exists a', bind (map_rowsM f a) mk_align = Ok a' /\ AlnWF a' /\ al_kind a' = k' /\
+             astr a' = map_rows g (astr a) /\ map fst a' = map fst a.
+Proof.
+  intros (Hne & Hwf & Hr) Hu Hf.
+  assert (Hlen : Forall (fun nr => zlen (row_str (snd nr)) = slen (astr a)) a).
+  { unfold rect, all_len, astr in Hr. rewrite Forall_map in Hr. exact Hr. }
+  unfold map_rowsM.
+  destruct (mapM_exists (fun nr => bind (f (snd nr)) (fun r' => Ok (fst nr, r')))
+              (fun nr nr' => fst nr' = fst nr /\ RowWF (snd nr') /\ skind (adata (snd nr')) = k' /\
+                             row_str (snd nr') = g (row_str (snd nr))) a) as (a' & Ea & Ha).
+  { intros [n r] Hin. rewrite Forall_forall in Hwf, Hlen.
+    destruct (Hwf _ Hin) as [W K]. specialize (Hlen _ Hin). cbn [fst snd] in *.
+    destruct (Hf r W K Hlen) as (r' & E & W' & K' & S). exists (n, r'). rewrite E. cbn [bind fst snd]. auto. }
+  rewrite Ea. cbn [bind].
+  assert (Hastr : astr a' = map_rows g (astr a)).
+  { clear -Ha. unfold astr, map_rows.
+    induction Ha as [|[n r] [n' r'] l l' (E1 & _ & _ & E2) _ IH]; [reflexivity|].
+    cbn [map fst snd] in *. rewrite IH. subst. rewrite E2. reflexivity. }
+  assert (Hnames : map fst a' = map fst a).
+  { clear -Ha. induction Ha as [|x y l l' (E1 & _) _ IH]; [reflexivity|]. cbn [map]. now rewrite IH, E1. }
+  assert (Hne' : a' <> []).
+  { intros ->. inversion Ha; subst; congruence. }
+  assert (Hwf' : Forall (fun nr => RowWF (snd nr) /\ skind (adata (snd nr)) = k') a').
+  { clear -Ha. induction Ha as [|x y l l' (_ & W & K & _) _ IH]; constructor; auto. }
+  destruct (mk_align_ok a' k' Hne' Hwf') as (E & W & K).
+  { rewrite Hastr. apply rect_map_rows; assumption. }
+  exists a'. auto.
+Qed.
+
+(** ** slices with optional bounds *)
+Definition lo_of (x : option Z) : Z := match x with Some a => a | None => 0 end.
+Definition hi_of (y : option Z) (n : Z) : Z := match y with Some b => b | None => n end.
+Definition bounds_ok (n : Z) (x y : option Z) : Prop := 0 <= lo_of x /\ lo_of x <= hi_of y n /\ hi_of y n <= n.
+
+Lemma py_slice_opt_msub {A} (l : list A) x y : bounds_ok (zlen l) x y ->
+  py_slice l x y 1 = msub l (lo_of x) (hi_of y (zlen l)).
+Proof.
+  intros (H0 & H1 & H2). rewrite <- py_slice_msub by assumption.
+  rewrite !py_slice_unfold. f_equal.
+  pose proof (zlen_nonneg l) as Hn.
+  assert (E1 : adjust_bound (zlen l) 1 false x = adjust_bound (zlen l) 1 false (Some (lo_of x))).
+  { destruct x as [a|]; [reflexivity|]. cbn [lo_of]. unfold adjust_bound.
+    replace (1 <? 0) with false by lia. replace (0 <? 0) with false by lia.
+    destruct (0 >=? zlen l) eqn:E; lia. }
+  assert (E2 : adjust_bound (zlen l) 1 true y = adjust_bound (zlen l) 1 true (Some (hi_of y (zlen l)))).
+  { destruct y as [b|]; [reflexivity|]. cbn [hi_of]. unfold adjust_bound.
+    replace (1 <? 0) with false by lia. replace (zlen l <? 0) with false by lia.
+    replace (zlen l >=? zlen l) with true by lia. reflexivity. }
+  rewrite E1, E2. reflexivity.
+Qed.
+
+Lemma row_getitem_slice_none_stop vr r x :
+  row_getitem_slice vr r x None = row_getitem_slice vr r x (Some (len (amap r))).
+Proof.
+  unfold row_getitem_slice, imap_slice, or_len.
+  destruct (v_clamp vr); destruct (len (amap r) =? 0); reflexivity.
+Qed.
+
+Lemma row_getitem_slice_none_start vr r y :
+  row_getitem_slice vr r None y = row_getitem_slice vr r (Some 0) y.
+Proof. unfold row_getitem_slice, imap_slice. destruct (v_clamp vr); reflexivity. Qed.
+
+Lemma row_slice_opt vr r x y : RowWF r -> bounds_ok (row_len r) x y ->
+  exists r', row_getitem_slice vr r x y = Ok r' /\ RowWF r' /\ skind (adata r') = skind (adata r) /\
+             row_str r' = py_slice (row_str r) x y 1.
+Proof.
+  intros Hr Hb. pose proof (zlen_row_str r Hr) as Hl.
+  rewrite py_slice_opt_msub by (rewrite Hl; exact Hb). rewrite Hl.
+  destruct Hb as (H0 & H1 & H2).
+  assert (E : row_getitem_slice vr r x y = row_getitem_slice vr r (Some (lo_of x)) (Some (hi_of y (row_len r)))).
+  { destruct x as [a|]; destruct y as [b|]; cbn [lo_of hi_of]; unfold row_len.
+    - reflexivity.
+    - apply row_getitem_slice_none_stop.
+    - apply row_getitem_slice_none_start.
+    - rewrite row_getitem_slice_none_stop. apply row_getitem_slice_none_start. }
+  rewrite E. apply row_slice_in_range; assumption.
+Qed.
+
+Lemma Forall2_len {A B} (P : A -> B -> Prop) l l' : Forall2 P l l' -> length l = length l'.
+Proof. induction 1; cbn [length]; congruence. Qed.
+
+(** ** rebuilding an alignment from strings ([take_positions], [sample], [to_type], ...) *)
+Lemma rebuild_spec k names strs n :
+  names <> [] -> length names = length strs -> Forall (fun s => zlen s = n) strs ->
+  exists a', rebuild k names strs = Ok a' /\ AlnWF a' /\ al_kind a' = k /\ astr a' = combine names strs /\
+             map fst a' = names.
+Proof.
+  intros Hne Hlen Hn. unfold rebuild.
+  destruct (mapM_exists (row_of_string k) (fun s r => RowWF r /\ skind (adata r) = k /\ row_str r = s) strs)
+    as (rows & E & H2).
+  { intros s _. destruct (row_of_string_spec k s) as (r & Er & W & K & S). exists r. auto. }
+  rewrite E. cbn [bind].
+  assert (Hl2 : length strs = length rows) by (eapply Forall2_len; eauto).
+  assert (Hastr : astr (combine names rows) = combine names strs).
+  { clear -H2 Hlen. revert names Hlen. induction H2 as [|s r l l' (_ & _ & S) _ IH]; intros names Hlen.
+    - destruct names; reflexivity.
+    - destruct names as [|nm names]; [reflexivity|]. cbn [combine astr map fst snd]. rewrite S. f_equal.
+      apply IH. cbn [length] in Hlen. lia. }
+  assert (Hwf : Forall (fun nr => RowWF (snd nr) /\ skind (adata (snd nr)) = k) (combine names rows)).
+  { clear -H2. revert names. induction H2 as [|s r l l' (W & K & _) _ IH]; intros names.
+    - destruct names; constructor.
+    - destruct names as [|nm names]; [constructor|]. cbn [combine]. constructor; [cbn [snd]; auto|apply IH]. }
+  assert (Hne' : combine names rows <> []).
+  { destruct names as [|nm names]; [congruence|]. destruct rows as [|r rows]; [cbn [length] in *; lia|]. discriminate. }
+  assert (Hrect : rect (astr (combine names rows))).
+  { rewrite Hastr. clear -Hn Hlen Hne. destruct names as [|nm names]; [congruence|].
+    destruct strs as [|s strs]; [cbn [length] in Hlen; lia|]. cbn [combine]. apply rect_cons.
+    inversion Hn as [|? ? Hs Hn']; subst.
+    clear -Hn'. revert names. induction Hn' as [|t l Ht _ IH]; intros names.
+    - destruct names; constructor.
+    - destruct names as [|x names]; [constructor|]. cbn [combine]. constructor; [cbn [snd]; lia|apply IH]. }
+  destruct (mk_align_ok _ k Hne' Hwf Hrect) as (Em & W & K).
+  exists (combine names rows). split; [exact Em|]. split; [exact W|]. split; [exact K|]. split; [exact Hastr|].
+  clear -Hlen Hl2. revert strs rows Hlen Hl2. induction names as [|nm names IH]; intros strs rows Hlen Hl2; [reflexivity|].
+  destruct rows as [|r rows]; [destruct strs; cbn [length] in *; lia|].
+  destruct strs as [|s strs]; [cbn [length] in *; lia|].
+  cbn [combine map fst]. f_equal. apply (IH strs rows); cbn [length] in *; lia.
+Qed.
+
+Lemma combine_fst_map {A B} (f : A -> B) (l : list (Z * A)) :
+  combine (map fst l) (map (fun nr => f (snd nr)) l) = map (fun nr => (fst nr, f (snd nr))) l.
+Proof. induction l as [|[n x] l IH]; [reflexivity|]. cbn [map combine fst snd]. now rewrite IH. Qed.
+
+Lemma rebuild_rows_spec k a (h : arow -> res (list Z)) (g : list Z -> list Z) :
+  AlnWF a -> uniform g ->
+  (forall r, RowWF r -> skind (adata r) = al_kind a -> zlen (row_str r) = slen (astr a) -> h r = Ok (g (row_str r))) ->
+  exists a', bind (mapM (fun nr => h (snd nr)) a) (fun strs => rebuild k (map fst a) strs) = Ok a' /\
+             AlnWF a' /\ al_kind a' = k /\ astr a' = map_rows g (astr a) /\ map fst a' = map fst a.
+Proof.
+  intros (Hne & Hwf & Hr) Hu Hh.
+  assert (Hlen : Forall (fun nr => zlen (row_str (snd nr)) = slen (astr a)) a).
+  { unfold rect, all_len, astr in Hr. rewrite Forall_map in Hr. exact Hr. }
+  rewrite (mapM_ok (fun nr => h (snd nr)) (fun nr => g (row_str (snd nr))) a).
+  2:{ intros [n r] Hin. rewrite Forall_forall in Hwf, Hlen. destruct (Hwf _ Hin) as [W K]. apply Hh; [exact W|exact K|apply (Hlen _ Hin)]. }
+  cbn [bind].
+  destruct a as [|[n0 r0] t] eqn:Ea; [congruence|]. rewrite <- Ea in *.
+  destruct (rebuild_spec k (map fst a) (map (fun nr => g (row_str (snd nr))) a) (zlen (g (row_str r0))))
+    as (a' & E & W & K & S & N).
+  - rewrite Ea. discriminate.
+  - now rewrite !map_length.
+  - rewrite Forall_map. eapply Forall_impl; [|exact Hlen]. intros [n r] Hl. cbn [snd] in *. apply Hu.
+    rewrite Hl. rewrite Ea. reflexivity.
+  - exists a'. split; [exact E|]. split; [exact W|]. split; [exact K|]. split; [|exact N].
+    rewrite S. transitivity (map (fun nr => (fst nr, g (row_str (snd nr)))) a).
+    + apply (combine_fst_map (fun r => g (row_str r))).
+    + unfold map_rows, astr. rewrite map_map. reflexivity.
+Qed.
+
+(** ** slices with Python's conventions: negative bounds (in range), omitted bounds, start beyond stop *)
+
+Definition in_py_range (n : Z) (o : option Z) : Prop := match o with None => True | Some v => - n <= v <= n end.
+
+Lemma adjust_start_py n x : 0 <= n -> in_py_range n x -> adjust_bound n 1 false x = py_bound n 0 x.
+Proof.
+  intros Hn H. unfold adjust_bound, py_bound. replace (1 <? 0) with false by lia.
+  destruct x as [v|]; [|reflexivity]. cbn [in_py_range] in H.
+  destruct (v <? 0) eqn:E1.
+  - replace (v + n <? 0) with false by lia. lia.
+  - destruct (v >=? n) eqn:E2; lia.
+Qed.
+
+Lemma adjust_stop_py n y : 0 <= n -> in_py_range n y -> adjust_bound n 1 true y = py_bound n n y.
+Proof.
+  intros Hn H. unfold adjust_bound, py_bound. replace (1 <? 0) with false by lia.
+  destruct y as [v|]; [|reflexivity]. cbn [in_py_range] in H.
+  destruct (v <? 0) eqn:E1.
+  - replace (v + n <? 0) with false by lia. lia.
+  - destruct (v >=? n) eqn:E2; lia.
+Qed.
+
+Lemma py_bound_range n d o : 0 <= d <= n -> in_py_range n o -> 0 <= py_bound n d o <= n.
+Proof. intros Hd H. unfold py_bound. destruct o as [v|]; [|lia]. cbn [in_py_range] in H. destruct (v <? 0) eqn:E; lia. Qed.
+
+Lemma py_slice_python {A} (l : list A) x y : in_py_range (zlen l) x -> in_py_range (zlen l) y ->
+  py_slice l x y 1 = msub l (py_bound (zlen l) 0 x) (Z.max (py_bound (zlen l) 0 x) (py_bound (zlen l) (zlen l) y)).
+Proof.
+  intros Hx Hy. pose proof (zlen_nonneg l) as Hn.
+  pose proof (py_bound_range (zlen l) 0 x ltac:(lia) Hx) as Ha.
+  pose proof (py_bound_range (zlen l) (zlen l) y ltac:(lia) Hy) as Hb.
+  set (a := py_bound (zlen l) 0 x) in *. set (b := py_bound (zlen l) (zlen l) y) in *.
+  assert (E : py_slice l x y 1 = py_slice l (Some a) (Some b) 1).
+  { rewrite !py_slice_unfold. rewrite (adjust_start_py _ x Hn Hx), (adjust_stop_py _ y Hn Hy). fold a b.
+    rewrite (adjust_start_py _ (Some a) Hn), (adjust_stop_py _ (Some b) Hn) by (cbn [in_py_range]; lia).
+    unfold py_bound. replace (a <? 0) with false by lia. replace (b <? 0) with false by lia. reflexivity. }
+  rewrite E. destruct (Z_le_dec a b) as [Le|Gt].
+  - replace (Z.max a b) with b by lia. apply py_slice_msub; lia.
+  - replace (Z.max a b) with a by lia. rewrite msub_empty. rewrite py_slice_unfold.
+    rewrite (adjust_start_py _ (Some a) Hn), (adjust_stop_py _ (Some b) Hn) by (cbn [in_py_range]; lia).
+    unfold py_bound. replace (a <? 0) with false by lia. replace (b <? 0) with false by lia.
+    rewrite range_len_pos_empty by lia. reflexivity.
+Qed.
+
+Lemma imap_slice_python vr m x y : IndelMapSpec.WF m -> in_py_range (len m) x -> in_py_range (len m) y ->
+  exists m', imap_slice vr m x y = Ok m' /\ IndelMapSpec.WF m' /\
+             abs m' = msub (abs m) (py_bound (len m) 0 x) (Z.max (py_bound (len m) 0 x) (py_bound (len m) (len m) y)).
+Proof.
+  intros Hm Hx Hy.
+  assert (Hl : 0 <= len m) by (rewrite <- (zlen_abs_len m Hm); apply zlen_nonneg).
+  pose proof (py_bound_range (len m) 0 x ltac:(lia) Hx) as Ha.
+  pose proof (py_bound_range (len m) (len m) y ltac:(lia) Hy) as Hb.
+  unfold imap_slice. destruct (v_clamp vr).
+  - apply (slice_v2_spec m x y Hm); lia.
+  - apply (slice_spec_python m x y Hm); lia.
+Qed.
+
+Lemma row_slice_core vr r x y a B s1 nm :
+  RowWF r -> 0 <= a -> a <= B -> B <= row_len r ->
+  imap_slice vr (amap r) x y = Ok nm -> IndelMapSpec.WF nm -> abs nm = msub (abs (amap r)) a B ->
+  get_seq_index (amap r) (or0 x) = Ok (residues (firstn (Z.to_nat a) (abs (amap r)))) ->
+  get_seq_index (amap r) (or_len y (len (amap r))) = Ok s1 ->
+  (a < B -> s1 = residues (firstn (Z.to_nat B) (abs (amap r)))) ->
+  exists r', row_getitem_slice vr r x y = Ok r' /\ RowWF r' /\ skind (adata r') = skind (adata r) /\
+             row_str r' = msub (row_str r) a B.
+Proof.
+  intros (Hm & Hd & Hp) Ha HaB HB E1 Hnm Habs E2 E3 Hs1. unfold row_len in HB. destruct r as [m d]. cbn [amap adata] in *.
+  unfold row_getitem_slice. cbn [amap adata]. rewrite E1. cbn [bind]. rewrite E2. cbn [bind]. rewrite E3. cbn [bind].
+  pose proof (parent_length_residues m Hm) as Hpr.
+  pose proof (parent_length_residues nm Hnm) as Hpn. rewrite Habs, residues_msub in Hpn by lia.
+  pose proof (residues_firstn_mono (abs m) a B Ha HaB) as Hmono.
+  pose proof (residues_nonneg' (firstn (Z.to_nat a) (abs m))) as H0.
+  pose proof (residues_firstn_le (abs m) (Z.to_nat B)) as Hle.
+  destruct (parent_length nm =? 0) eqn:Eu; cbn [negb].
+  - destruct (seq_slice_empty d Hd) as (d' & E4 & Hd' & Hk & Hr). rewrite E4. cbn [bind andb].
+    exists (mkRow nm d'). split; [reflexivity|].
+    destruct (row_slice_finish m d nm d' a B Hm Hp Hnm Habs Hd') as [W S]; try lia.
+    { rewrite Hr. replace (residues (firstn (Z.to_nat B) (abs m))) with (residues (firstn (Z.to_nat a) (abs m))) by lia.
+      symmetry. apply msub_empty. }
+    split; [exact W|]. split; [exact Hk|exact S].
+  - assert (HltB : a < B).
+    { destruct (Z.eq_dec a B) as [->|]; [|lia]. lia. }
+    rewrite (Hs1 HltB).
+    destruct (seq_slice_spec d _ _ Hd H0 Hmono ltac:(lia)) as (d' & E4 & Hd' & Hk & Hr). rewrite E4. cbn [bind andb].
+    replace (_ >? _) with false by lia.
+    exists (mkRow nm d'). split; [reflexivity|].
+    destruct (row_slice_finish m d nm d' a B Hm Hp Hnm Habs Hd' Hr) as [W S]; try lia.
+    split; [exact W|]. split; [exact Hk|exact S].
+Qed.
+
+(** HEADLINE (row, Python conventions) *)
+Lemma row_slice_python vr r x y : RowWF r -> in_py_range (row_len r) x -> in_py_range (row_len r) y ->
+  exists r', row_getitem_slice vr r x y = Ok r' /\ RowWF r' /\ skind (adata r') = skind (adata r) /\
+             row_str r' = py_slice (row_str r) x y 1.
+Proof.
+  intros Hr Hx Hy. pose proof Hr as (Hm & Hd & Hp). pose proof (zlen_row_str r Hr) as Hl.
+  rewrite py_slice_python by (rewrite Hl; assumption). rewrite Hl. unfold row_len in *.
+  set (n := len (amap r)) in *.
+  assert (Hn : 0 <= n) by (unfold n; rewrite <- (zlen_abs_len _ Hm); apply zlen_nonneg).
+  pose proof (py_bound_range n 0 x ltac:(lia) Hx) as Ha.
+  pose proof (py_bound_range n n y ltac:(lia) Hy) as Hb.
+  destruct (imap_slice_python vr (amap r) x y Hm Hx Hy) as (nm & E1 & Hnm & Habs). fold n in Habs.
+  set (a := py_bound n 0 x) in *. set (b := py_bound n n y) in *.
+  assert (E2 : get_seq_index (amap r) (or0 x) = Ok (residues (firstn (Z.to_nat a) (abs (amap r))))).
+  { destruct x as [v|]; cbn [or0 in_py_range] in *.
+    - assert (Ea : a = if v <? 0 then n + v else v) by reflexivity.
+      destruct (v <? 0) eqn:Ev.
+      + rewrite Ea. apply (get_seq_index_neg (amap r) Hm v). fold n. lia.
+      + rewrite Ea. apply (get_seq_index_spec (amap r) Hm v). fold n. lia.
+    - apply (get_seq_index_spec (amap r) Hm 0). fold n. lia. }
+  assert (E3 : exists s1, get_seq_index (amap r) (or_len y n) = Ok s1 /\
+                          (a < Z.max a b -> s1 = residues (firstn (Z.to_nat (Z.max a b)) (abs (amap r))))).
+  { destruct y as [v|]; cbn [or_len in_py_range] in *.
+    - assert (Eb : b = if v <? 0 then n + v else v) by reflexivity.
+      destruct (v =? 0) eqn:E0.
+      + eexists. split; [apply (get_seq_index_spec (amap r) Hm n); fold n; lia|].
+        intros Hlt. exfalso. replace (v <? 0) with false in Eb by lia. lia.
+      + destruct (v <? 0) eqn:Ev.
+        * eexists. split; [apply (get_seq_index_neg (amap r) Hm v); fold n; lia|].
+          intros Hlt. f_equal. f_equal. fold n. lia.
+        * eexists. split; [apply (get_seq_index_spec (amap r) Hm v); fold n; lia|].
+          intros Hlt. f_equal. f_equal. lia.
+    - assert (Eb : b = n) by reflexivity.
+      eexists. split; [apply (get_seq_index_spec (amap r) Hm n); fold n; lia|]. intros _. f_equal. f_equal. lia. }
+  destruct E3 as (s1 & E3 & Hs1).
+  apply (row_slice_core vr r x y a (Z.max a b) s1 nm Hr); try assumption; try lia.
+  unfold row_len. fold n. lia.
+Qed.
+
+(** ** uniform (length-determined) string functions *)
+Lemma uniform_py_slice x y c : c <> 0 -> uniform (fun s => py_slice s x y c).
+Proof. intros Hc s1 s2 H. rewrite !length_py_slice by exact Hc. now rewrite H. Qed.
+
+Lemma zlen_ssub s x y : zlen (ssub s x y) = Z.min (Z.of_nat (Z.to_nat (y - x))) (Z.max 0 (zlen s - Z.of_nat (Z.to_nat x))).
+Proof. unfold ssub. now rewrite zlen_firstn, zlen_skipn. Qed.
+
+Lemma uniform_ssub x y : uniform (fun s => ssub s x y).
+Proof. intros s1 s2 H. rewrite !zlen_ssub. now rewrite H. Qed.
+
+Lemma uniform_flat_map {I} (f : I -> list Z -> list Z) l : (forall i, uniform (f i)) -> uniform (fun s => flat_map (fun i => f i s) l).
+Proof.
+  intros Hf s1 s2 H. induction l as [|i l IH]; [reflexivity|]. cbn [flat_map]. rewrite !zlen_app, IH.
+  now rewrite (Hf i s1 s2 H).
+Qed.
+
+Lemma uniform_take_cols cols : uniform (take_cols cols).
+Proof. apply (uniform_flat_map (fun i s => ssub s i (i + 1))). intros i. apply uniform_ssub. Qed.
+
+Lemma uniform_take_motifs m js : uniform (take_motifs m js).
+Proof. apply (uniform_flat_map (fun j s => ssub s (j * m) ((j + 1) * m))). intros i. apply uniform_ssub. Qed.
+
+Lemma uniform_drop_cols cols : uniform (drop_cols cols).
+Proof.
+  intros s1 s2 H. unfold drop_cols. rewrite H.
+  apply (uniform_flat_map (fun i s => if zmem i cols then [] else ssub s i (i + 1))); [|exact H].
+  intros i. destruct (zmem i cols); [intros ? ? _; reflexivity|apply uniform_ssub].
+Qed.
+
+Lemma uniform_map f : uniform (map f).
+Proof. intros s1 s2 H. now rewrite !zlen_map. Qed.
+
+Lemma uniform_rc k : uniform (rc_str k).
+Proof. intros s1 s2 H. unfold rc_str. now rewrite !zlen_map, !zlen_rev. Qed.
+
+Lemma uniform_id : uniform (fun s => s).
+Proof. intros s1 s2 H. exact H. Qed.
+
+Lemma concatM_ok {I} (F : I -> res (list Z)) (f : I -> list Z) l :
+  (forall i, In i l -> F i = Ok (f i)) -> concatM (map F l) = Ok (flat_map f l).
+Proof.
+  induction l as [|i l IH]; intros H; [reflexivity|].
+  cbn [map concatM fold_right flat_map]. fold (concatM (map F l)).
+  rewrite (H i (or_introl eq_refl)), IH by (intros j Hj; apply H; right; exact Hj). reflexivity.
+Qed.
+
+Lemma flat_map_filter {A B} (p : A -> bool) (f : A -> list B) l :
+  flat_map f (filter p l) = flat_map (fun i => if p i then f i else []) l.
+Proof.
+  induction l as [|x l IH]; [reflexivity|]. cbn [filter flat_map].
+  destruct (p x); cbn [flat_map]; now rewrite IH.
+Qed.
+
+Lemma AlnWF_row_len a r : AlnWF a -> RowWF r -> zlen (row_str r) = slen (astr a) -> row_len r = slen (astr a).
+Proof. intros _ W H. now rewrite <- (zlen_row_str r W). Qed.
+
+(** ** the operations, one by one *)
+
+Lemma al_slice_spec vr a x y : AlnWF a -> in_py_range (slen (astr a)) x -> in_py_range (slen (astr a)) y ->
+  exists a', al_slice vr a x y = Ok a' /\ AlnWF a' /\ al_kind a' = al_kind a /\
+             astr a' = map_rows (fun s => py_slice s x y 1) (astr a) /\ map fst a' = map fst a.
+Proof.
+  intros Ha Hx Hy. unfold al_slice.
+  apply (map_rowsM_spec _ (fun s => py_slice s x y 1) (al_kind a) a Ha); [apply uniform_py_slice; lia|].
+  intros r W K L. destruct (row_slice_python vr r x y W) as (r' & E & W' & K' & S).
+  - rewrite (AlnWF_row_len a r Ha W L). exact Hx.
+  - rewrite (AlnWF_row_len a r Ha W L). exact Hy.
+  - exists r'. split; [exact E|]. split; [exact W'|]. split; [congruence|exact S].
+Qed.
+
+Lemma al_index_spec vr a i : AlnWF a ->
+  (if v_negidx vr then - slen (astr a) <= i else 0 <= i) -> i < slen (astr a) ->
+  let j := if i <? 0 then i + slen (astr a) else i in
+  exists a', bind (map_rowsM (fun r => row_getitem_int vr r i) a) mk_align = Ok a' /\ AlnWF a' /\
+             al_kind a' = al_kind a /\ astr a' = map_rows (fun s => ssub s j (j + 1)) (astr a) /\ map fst a' = map fst a.
+Proof.
+  intros Ha Hlo Hhi j.
+  apply (map_rowsM_spec _ (fun s => ssub s j (j + 1)) (al_kind a) a Ha); [apply uniform_ssub|].
+  intros r W K L. pose proof (AlnWF_row_len a r Ha W L) as Hl. subst j.
+  destruct (i <? 0) eqn:Ei.
+  - destruct (v_negidx vr) eqn:Ev; [|lia].
+    destruct (row_getitem_int_neg vr r i W Ev ltac:(lia)) as (r' & E & W' & K' & S).
+    exists r'. rewrite Hl in S. split; [exact E|]. split; [exact W'|]. split; [congruence|exact S].
+  - destruct (row_getitem_int_spec vr r i W ltac:(lia)) as (r' & E & W' & K' & S).
+    exists r'. split; [exact E|]. split; [exact W'|]. split; [congruence|exact S].
+Qed.
+
+Lemma al_rc_spec a : AlnWF a -> al_kind a <> KOther ->
+  exists a', bind (map_rowsM row_rc a) mk_align = Ok a' /\ AlnWF a' /\ al_kind a' = al_kind a /\
+             astr a' = map_rows (rc_str (al_kind a)) (astr a) /\ map fst a' = map fst a.
+Proof.
+  intros Ha Hk.
+  apply (map_rowsM_spec _ (rc_str (al_kind a)) (al_kind a) a Ha); [apply uniform_rc|].
+  intros r W K L. destruct (row_rc_spec r W ltac:(congruence)) as (r' & E & W' & K' & S).
+  exists r'. split; [exact E|]. split; [exact W'|]. split; [congruence|]. rewrite S, K. reflexivity.
+Qed.
+
+Lemma al_to_kind_spec a target : AlnWF a -> al_kind a <> KOther -> target <> KOther ->
+  exists a', bind (map_rowsM (fun r => row_to_kind r target) a) mk_align = Ok a' /\ AlnWF a' /\ al_kind a' = target /\
+             astr a' = map_rows (match al_kind a, target with
+                                 | KDna, KRna => t2u_str | KRna, KDna => u2t_str | _, _ => fun s => s end) (astr a) /\
+             map fst a' = map fst a.
+Proof.
+  intros Ha Hk Ht.
+  apply (map_rowsM_spec _ _ target a Ha).
+  - destruct (al_kind a), target; try apply uniform_id; apply uniform_map.
+  - intros r W K L. destruct (row_to_kind_spec r target W ltac:(congruence) Ht) as (r' & E & W' & K' & S).
+    exists r'. split; [exact E|]. split; [exact W'|]. split; [exact K'|]. rewrite S, K.
+    destruct (al_kind a), target; reflexivity.
+Qed.
+
+Lemma al_totype_spec a : AlnWF a ->
+  exists a', rebuild (al_kind a) (map fst a) (map (fun nr => row_gapped (snd nr)) a) = Ok a' /\ AlnWF a' /\
+             al_kind a' = al_kind a /\ astr a' = astr a /\ map fst a' = map fst a.
+Proof.
+  intros Ha.
+  destruct (rebuild_rows_spec (al_kind a) a (fun r => Ok (row_gapped r)) (fun s => s) Ha uniform_id) as (a' & E & W & K & S & N).
+  - intros r Wr _ _. now rewrite row_gapped_spec.
+  - exists a'. rewrite (mapM_ok _ (fun nr => row_gapped (snd nr))) in E by reflexivity. cbn [bind] in E.
+    split; [exact E|]. split; [exact W|]. split; [exact K|]. split; [|exact N].
+    rewrite S. unfold map_rows. rewrite <- (map_id (astr a)) at 2. apply map_ext. intros [? ?]; reflexivity.
+Qed.
+
+Lemma pick_spec vr r cols : RowWF r -> Forall (fun i => 0 <= i < row_len r) cols ->
+  concatM (map (fun i => bind (row_getitem_int vr r i) (fun r' => Ok (row_gapped r'))) cols)
+  = Ok (take_cols cols (row_str r)).
+Proof.
+  intros W H. unfold take_cols. apply concatM_ok. intros i Hi. rewrite Forall_forall in H.
+  destruct (row_getitem_int_spec vr r i W (H i Hi)) as (r' & E & W' & _ & S). rewrite E. cbn [bind].
+  now rewrite (row_gapped_spec r' W'), S.
+Qed.
+
+Lemma al_take_positions_spec vr a cols negate : AlnWF a ->
+  Forall (fun i => 0 <= i < slen (astr a)) cols ->
+  (negate = true -> v_negate_ok vr = true \/ al_kind a = KOther) ->
+  exists a', al_take_positions vr a cols negate = Ok a' /\ AlnWF a' /\ al_kind a' = al_kind a /\
+             astr a' = map_rows (if negate then drop_cols cols else take_cols cols) (astr a) /\ map fst a' = map fst a.
+Proof.
+  intros Ha Hc Hn. unfold al_take_positions.
+  apply (rebuild_rows_spec (al_kind a) a
+           (fun r => if negate then
+                       bind (concatM (map (fun i => bind (row_getitem_int vr r i) (fun r' => Ok (row_gapped r')))
+                                          (filter (fun i => negb (zmem i cols)) (zrange 0 (row_len r)))))
+                            (fun s => if negb (v_negate_ok vr) && match al_kind a with KOther => false | _ => true end
+                                      then Err E_Type else Ok s)
+                     else concatM (map (fun i => bind (row_getitem_int vr r i) (fun r' => Ok (row_gapped r'))) cols))
+           (if negate then drop_cols cols else take_cols cols) Ha).
+  - destruct negate; [apply uniform_drop_cols|apply uniform_take_cols].
+  - intros r W K L. pose proof (AlnWF_row_len a r Ha W L) as Hl. destruct negate.
+    + rewrite (pick_spec vr r _ W).
+      2:{ apply Forall_forall. intros i Hi. apply filter_In in Hi. destruct Hi as [Hi _]. apply zrange_In in Hi. exact Hi. }
+      cbn [bind].
+      assert (E : negb (v_negate_ok vr) && match al_kind a with KOther => false | _ => true end = false).
+      { destruct (Hn eq_refl) as [-> | ->]; [reflexivity|apply andb_false_r]. }
+      rewrite E. f_equal. unfold take_cols, drop_cols. rewrite flat_map_filter.
+      rewrite <- (zlen_row_str r W). apply flat_map_ext. intros i. now destruct (zmem i cols).
+    + apply pick_spec; [exact W|]. rewrite Hl. exact Hc.
+Qed.
+
+Lemma al_sample_spec vr a locs m : AlnWF a -> 0 < m ->
+  Forall (fun l => 0 <= l /\ (l + 1) * m <= slen (astr a)) locs ->
+  exists a', al_sample vr a locs m = Ok a' /\ AlnWF a' /\ al_kind a' = al_kind a /\
+             astr a' = map_rows (take_motifs m locs) (astr a) /\ map fst a' = map fst a.
+Proof.
+  intros Ha Hm Hl. unfold al_sample.
+  apply (rebuild_rows_spec (al_kind a) a
+           (fun r => concatM (map (fun l => bind (row_getitem_slice vr r (Some (l * m)) (Some ((l + 1) * m)))
+                                                 (fun r' => Ok (row_gapped r'))) locs))
+           (take_motifs m locs) Ha (uniform_take_motifs m locs)).
+  intros r W K L. pose proof (AlnWF_row_len a r Ha W L) as Hn.
+  unfold take_motifs. apply concatM_ok. intros l Hin. rewrite Forall_forall in Hl. destruct (Hl l Hin) as [H0 H1].
+  destruct (row_slice_in_range vr r (l * m) ((l + 1) * m) W ltac:(nia) ltac:(nia) ltac:(lia)) as (r' & E & W' & _ & S).
+  rewrite E. cbn [bind]. now rewrite (row_gapped_spec r' W'), S.
+Qed.
+
+Lemma find_row_astr x a : find_row x (astr a) = option_map row_str (find_orow x a).
+Proof.
+  unfold find_row, find_orow, astr.
+  induction a as [|[n r] t IH]; [reflexivity|]. cbn [map filter fst snd].
+  destruct (n =? x); [reflexivity|exact IH].
+Qed.
+
+Lemma find_orow_In x a r : find_orow x a = Some r -> In (x, r) a.
+Proof.
+  unfold find_orow. induction a as [|[n r0] t IH]; [discriminate|]. cbn [filter fst].
+  destruct (n =? x) eqn:E.
+  - intros H. injection H as <-. left. f_equal. lia.
+  - intros H. right. apply IH, H.
+Qed.
+
+Lemma AlnWF_In a n r : AlnWF a -> In (n, r) a ->
+  RowWF r /\ skind (adata r) = al_kind a /\ zlen (row_str r) = slen (astr a).
+Proof.
+  intros (Hne & Hwf & Hr) Hin. rewrite Forall_forall in Hwf. destruct (Hwf _ Hin) as [W K]. cbn [snd] in *.
+  split; [exact W|]. split; [exact K|].
+  unfold rect, all_len, astr in Hr. rewrite Forall_map in Hr. rewrite Forall_forall in Hr. apply (Hr _ Hin).
+Qed.
+
+Lemma al_degaprel_spec vr a x ref : AlnWF a -> find_orow x a = Some ref ->
+  let g := row_gapped ref in
+  exists a', al_take_positions vr a (filter (fun i => negb (znth 0 g i =? GAPC)) (zrange 0 (zlen g))) false = Ok a' /\
+             AlnWF a' /\ al_kind a' = al_kind a /\
+             astr a' = map_rows (take_cols (nongap_cols (row_str ref))) (astr a) /\ map fst a' = map fst a.
+Proof.
+  intros Ha Hf g. destruct (AlnWF_In a x ref Ha (find_orow_In _ _ _ Hf)) as (W & K & L).
+  subst g. rewrite (row_gapped_spec ref W).
+  apply (al_take_positions_spec vr a _ false Ha); [|discriminate].
+  apply Forall_forall. intros i Hi. apply filter_In in Hi. destruct Hi as [Hi _]. apply zrange_In in Hi. lia.
+Qed.
+
+Lemma slen_nonneg a : 0 <= slen a.
+Proof. destruct a as [|[n s] t]; cbn [slen]; [lia|apply zlen_nonneg]. Qed.
+
+Lemma al_len_slen a : AlnWF a -> al_len a = slen (astr a).
+Proof.
+  intros Ha. pose proof (slen_nonneg (astr a)) as H0.
+  assert (H : forall l : oalign, (forall n r, In (n, r) l -> row_len r = slen (astr a)) -> l <> [] ->
+                        fold_right (fun nr acc => Z.max (row_len (snd nr)) acc) 0 l = slen (astr a)).
+  { induction l as [|[n r] t IH]; intros Hall Hne; [congruence|]. cbn [fold_right snd].
+    rewrite (Hall n r (or_introl eq_refl)). destruct t as [|x t']; [cbn [fold_right]; lia|].
+    rewrite IH; [lia| |discriminate]. intros n' r' Hin. apply (Hall n' r'). right. exact Hin. }
+  unfold al_len. apply H; [|apply Ha].
+  intros n r Hin. destruct (AlnWF_In a n r Ha Hin) as (W & _ & L). now rewrite <- (zlen_row_str r W).
+Qed.
+
+Lemma map_rows_ext_len f g n a : all_len n a -> (forall s, zlen s = n -> f s = g s) -> map_rows f a = map_rows g a.
+Proof.
+  intros H Hfg. unfold map_rows, all_len in *. apply map_ext_in. intros [nm s] Hin. rewrite Forall_forall in H.
+  cbn [fst snd]. f_equal. apply Hfg. apply (H _ Hin).
+Qed.
+
+Lemma window_in_range n w st i : 0 <= i -> i < n_windows n w st -> 0 < w -> 0 < st -> 0 <= i * st /\ i * st + w <= n.
+Proof.
+  intros Hi Hlt Hw Hst. unfold n_windows in Hlt. destruct (0 <? n - w + 1) eqn:E; [|lia].
+  pose proof (cdiv_spec (n - w + 1) st Hst) as [H1 _]. split; nia.
+Qed.
+
+Lemma al_window_spec vr a w st i : AlnWF a ->
+  (0 <=? i) && (i <? n_windows (slen (astr a)) w st) && (0 <? w) && (0 <? st) = true ->
+  exists a', al_slice vr a (Some (i * st)) (Some (i * st + w)) = Ok a' /\ AlnWF a' /\ al_kind a' = al_kind a /\
+             astr a' = map_rows (fun s => ssub s (i * st) (i * st + w)) (astr a) /\ map fst a' = map fst a.
+Proof.
+  intros Ha Hc. apply andb_prop in Hc. destruct Hc as [Hc H4]. apply andb_prop in Hc. destruct Hc as [Hc H3].
+  apply andb_prop in Hc. destruct Hc as [H1 H2].
+  destruct (window_in_range (slen (astr a)) w st i ltac:(lia) ltac:(lia) ltac:(lia) ltac:(lia)) as [B1 B2].
+  destruct (al_slice_spec vr a (Some (i * st)) (Some (i * st + w)) Ha) as (a' & E & W & K & S & N).
+  { cbn [in_py_range]. lia. }
+  { cbn [in_py_range]. lia. }
+  exists a'. split; [exact E|]. split; [exact W|]. split; [exact K|]. split; [|exact N].
+  rewrite S. apply (map_rows_ext_len _ _ (slen (astr a))); [apply Ha|].
+  intros s Hs. apply py_slice_msub; lia.
+Qed.
+
+(** ** selecting rows *)
+Lemma all_len_rect n a : a <> [] -> all_len n a -> rect a.
+Proof.
+  intros Hne H. destruct a as [|[nm s] t]; [congruence|]. unfold rect. cbn [slen].
+  pose proof (Forall_inv H) as H0. cbn [snd] in H0. rewrite H0. exact H.
+Qed.
+
+Lemma AlnWF_sub a b : AlnWF a -> b <> [] -> (forall x, In x b -> In x a) ->
+  mk_align b = Ok b /\ AlnWF b /\ al_kind b = al_kind a.
+Proof.
+  intros Ha Hne Hsub. apply mk_align_ok; [exact Hne| |].
+  - apply Forall_forall. intros [n r] Hin. destruct (AlnWF_In a n r Ha (Hsub _ Hin)) as (W & K & _). cbn [snd]. auto.
+  - apply (all_len_rect (slen (astr a))).
+    + destruct b; [congruence|discriminate].
+    + unfold all_len, astr. rewrite Forall_map. apply Forall_forall. intros [n r] Hin. cbn [snd].
+      apply (AlnWF_In a n r Ha (Hsub _ Hin)).
+Qed.
+
+Lemma astr_filter (p : Z -> bool) a :
+  astr (filter (fun nr => p (fst nr)) a) = filter (fun nr => p (fst nr)) (astr a).
+Proof.
+  unfold astr. induction a as [|[n r] t IH]; [reflexivity|]. cbn [filter map fst snd].
+  destruct (p n); cbn [map fst snd]; now rewrite IH.
+Qed.
+
+Lemma al_takeseqs_negate_spec a names : AlnWF a ->
+  match filter (fun nr => negb (zmem (fst nr) names)) (astr a) with
+  | [] => filter (fun nr => negb (zmem (fst nr) names)) a = []
+  | s' => exists a', mk_align (filter (fun nr => negb (zmem (fst nr) names)) a) = Ok a' /\ AlnWF a' /\
+                     al_kind a' = al_kind a /\ astr a' = s'
+  end.
+Proof.
+  intros Ha. rewrite <- (astr_filter (fun x => negb (zmem x names)) a).
+  set (b := filter (fun nr => negb (zmem (fst nr) names)) a).
+  destruct b as [|x b'] eqn:Eb; [reflexivity|]. cbn [astr map]. fold (astr b').
+  destruct (AlnWF_sub a (x :: b') Ha ltac:(discriminate)) as (E & W & K).
+  { intros y Hy. rewrite <- Eb in Hy. apply filter_In in Hy. apply Hy. }
+  exists (x :: b'). auto.
+Qed.
+
+Lemma al_takeseqs_spec a names : AlnWF a -> names <> [] ->
+  forallb (fun x => match find_orow x a with Some _ => true | None => false end) names = true ->
+  let b := flat_map (fun x => match find_orow x a with Some r => [(x, r)] | None => [] end) names in
+  mk_align b = Ok b /\ AlnWF b /\ al_kind b = al_kind a /\
+  astr b = flat_map (fun x => match find_row x (astr a) with Some s => [(x, s)] | None => [] end) names.
+Proof.
+  intros Ha Hne Hall b.
+  assert (Hastr : astr b = flat_map (fun x => match find_row x (astr a) with Some s => [(x, s)] | None => [] end) names).
+  { subst b. clear. induction names as [|x t IH]; [reflexivity|]. cbn [flat_map]. unfold astr in *.
+    rewrite map_app, IH. f_equal. rewrite find_row_astr. destruct (find_orow x a); reflexivity. }
+  destruct (AlnWF_sub a b Ha) as (E & W & K).
+  - subst b. destruct names as [|x t]; [congruence|]. cbn [forallb] in Hall. apply andb_prop in Hall.
+    destruct Hall as [Hx _]. cbn [flat_map]. destruct (find_orow x a); [discriminate|discriminate].
+  - intros [n r] Hin. subst b. apply in_flat_map in Hin. destruct Hin as (x & _ & Hx).
+    destruct (find_orow x a) as [r0|] eqn:Ef; [|contradiction]. destruct Hx as [Hx|[]]. injection Hx as <- <-.
+    apply find_orow_In, Ef.
+  - auto.
+Qed.
+
+(** ** concatenation *)
+Lemma add_rows_spec vr same k a : forall b,
+  Forall (fun nr => RowWF (snd nr) /\ skind (adata (snd nr)) = k) a -> Forall (fun nr => RowWF (snd nr)) b ->
+  length a = length b -> (same = false \/ v_noshortcut vr = true) ->
+  exists c, add_rows vr same a b = Ok c /\ Forall (fun nr => RowWF (snd nr) /\ skind (adata (snd nr)) = k) c /\
+            astr c = zip_app (astr a) (srows (astr b)) /\ map fst c = map fst a.
+Proof.
+  induction a as [|[n r1] a IH]; intros b Ha Hb Hl Hc.
+  - exists []. destruct b; repeat split; constructor.
+  - destruct b as [|[n2 r2] b]; [cbn [length] in Hl; lia|].
+    inversion Ha as [|? ? [W1 K1] Ha']; subst. inversion Hb as [|? ? W2 Hb']; subst. cbn [snd] in *.
+    destruct (row_add_spec vr same r1 r2 W1 W2 Hc) as (r & E & W & K & S).
+    destruct (IH b Ha' Hb' ltac:(cbn [length] in Hl; lia) Hc) as (c & Ec & Wc & Sc & Nc).
+    exists ((n, r) :: c). cbn [add_rows]. rewrite E. cbn [bind]. rewrite Ec. cbn [bind].
+    split; [reflexivity|]. split; [constructor; [cbn [snd]; split; [exact W|congruence]|exact Wc]|].
+    split; [|cbn [map fst]; now rewrite Nc].
+    cbn [astr map fst snd srows zip_app]. fold (astr a) (astr b) (astr c). rewrite S. f_equal. exact Sc.
+Qed.
+
+Lemma all_len_zip_app n m a : forall rows, all_len n a -> Forall (fun s => zlen s = m) rows -> all_len (n + m) (zip_app a rows).
+Proof.
+  induction a as [|[nm s] a IH]; intros rows Ha Hr; [constructor|].
+  destruct rows as [|t rows]; [constructor|]. inversion Ha; subst. inversion Hr; subst. cbn [zip_app].
+  constructor; [cbn [snd] in *; rewrite zlen_app; lia|]. apply IH; assumption.
+Qed.
+
+Lemma al_add_spec vr same a b : AlnWF a -> Forall (fun nr => RowWF (snd nr)) b -> rect (astr b) ->
+  zlen a = zlen b -> (same = false \/ v_noshortcut vr = true) ->
+  exists c, al_add vr same a b = Ok c /\ AlnWF c /\ al_kind c = al_kind a /\
+            astr c = zip_app (astr a) (srows (astr b)) /\ map fst c = map fst a.
+Proof.
+  intros Ha Hb Hrb Hl Hc. unfold al_add. replace (zlen a =? zlen b) with true by lia. cbn [negb].
+  pose proof Ha as (Hne & Hwf & Hr).
+  destruct (add_rows_spec vr same (al_kind a) a b Hwf Hb ltac:(unfold zlen in Hl; lia) Hc) as (c & E & Wc & Sc & Nc).
+  rewrite E. cbn [bind].
+  assert (Hnec : c <> []).
+  { intros ->. destruct a; [congruence|discriminate]. }
+  destruct (mk_align_ok c (al_kind a) Hnec Wc) as (Em & W & K).
+  - apply (all_len_rect (slen (astr a) + slen (astr b))).
+    + rewrite Sc. destruct a as [|[n r] a]; [congruence|]. destruct b as [|[n2 r2] b]; [unfold zlen in Hl; cbn [length] in Hl; lia|].
+      discriminate.
+    + rewrite Sc. apply all_len_zip_app; [exact Hr|]. unfold rect, all_len, srows in *. rewrite Forall_map. exact Hrb.
+  - exists c. auto.
+Qed.
+
+Lemma zip_app_self a : zip_app a (srows a) = map_rows (fun s => s ++ s) a.
+Proof. unfold srows, map_rows. induction a as [|[n s] a IH]; [reflexivity|]. cbn [map zip_app fst snd]. now rewrite IH. Qed.
+
+Lemma zip_app_map_rows g1 g2 a : zip_app (map_rows g1 a) (srows (map_rows g2 a)) = map_rows (fun s => g1 s ++ g2 s) a.
+Proof. unfold srows, map_rows. induction a as [|[n s] a IH]; [reflexivity|]. cbn [map zip_app fst snd]. now rewrite IH. Qed.
+
+Lemma srows_combine names : forall rows, length names = length rows -> srows (combine names rows) = rows.
+Proof.
+  induction names as [|n names IH]; intros rows H; destruct rows as [|s rows]; cbn [length] in H; try lia; [reflexivity|].
+  cbn [combine srows map snd]. f_equal. apply IH. lia.
+Qed.
+
+Lemma AlnWF_rows a : AlnWF a -> Forall (fun nr => RowWF (snd nr)) a.
+Proof. intros (_ & H & _). eapply Forall_impl; [|exact H]. intros x [W _]. exact W. Qed.
+
+(** ** [filtered]: the [gv] loop yields the runs of kept motif columns *)
+Fixpoint trues (pos : Z) (fl : list bool) : list Z :=
+  match fl with [] => [] | f :: t => (if f then [pos] else []) ++ trues (pos + 1) t end.
+
+Fixpoint runs (m pos : Z) (opn : option Z) (fl : list bool) : list (Z * Z) :=
+  match fl with
+  | [] => match opn with Some s => [(s, pos * m)] | None => [] end
+  | true :: t => runs m (pos + 1) (match opn with Some s => Some s | None => Some (pos * m) end) t
+  | false :: t => (match opn with Some s => [(s, pos * m)] | None => [] end) ++ runs m (pos + 1) None t
+  end.
+
+Lemma trues_map (P : Z -> bool) : forall n pos, trues pos (map P (zrange_aux pos n)) = filter P (zrange_aux pos n).
+Proof.
+  induction n as [|n IH]; intros pos; [reflexivity|]. cbn [zrange_aux map trues filter]. rewrite IH.
+  destruct (P pos); reflexivity.
+Qed.
+
+Lemma pair_up_gv m fl : forall pos,
+  pair_up (gv_loop m pos false fl) = runs m pos None fl /\
+  forall s, pair_up (s :: gv_loop m pos true fl) = runs m pos (Some s) fl.
+Proof.
+  induction fl as [|f t IH]; intros pos.
+  - split; [reflexivity|]. intros s. reflexivity.
+  - destruct (IH (pos + 1)) as [I1 I2]. destruct f; cbn [gv_loop runs Bool.eqb app].
+    + split; [apply I2|]. intros s. apply I2.
+    + split; [apply I1|]. intros s. cbn [pair_up]. now rewrite I1.
+Qed.
+
+Lemma gv_nil m fl : forall pos, trues pos fl = [] -> gv_loop m pos false fl = [].
+Proof.
+  induction fl as [|f t IH]; intros pos H; [reflexivity|]. cbn [trues] in H. destruct f; [discriminate|].
+  cbn [gv_loop Bool.eqb app]. apply IH. exact H.
+Qed.
+
+Lemma runs_some_nonnil m fl : forall pos s, runs m pos (Some s) fl <> [].
+Proof.
+  induction fl as [|f t IH]; intros pos s; cbn [runs]; [discriminate|]. destruct f; [apply IH|discriminate].
+Qed.
+
+Lemma runs_nonnil m fl : forall pos, trues pos fl <> [] -> runs m pos None fl <> [].
+Proof.
+  induction fl as [|f t IH]; intros pos H; [contradiction|]. cbn [trues] in H. cbn [runs].
+  destruct f; [apply runs_some_nonnil|]. cbn [app]. apply IH. exact H.
+Qed.
+
+Lemma runs_flat s m : 0 < m -> forall fl pos, 0 <= pos ->
+  flat_map (fun se => ssub s (fst se) (snd se)) (runs m pos None fl) = take_motifs m (trues pos fl) s /\
+  forall q, 0 <= q <= pos ->
+    flat_map (fun se => ssub s (fst se) (snd se)) (runs m pos (Some (q * m)) fl)
+    = ssub s (q * m) (pos * m) ++ take_motifs m (trues pos fl) s.
+Proof.
+  intros Hm. induction fl as [|f t IH]; intros pos Hpos.
+  - split; [reflexivity|]. intros q Hq. cbn [runs trues flat_map fst snd take_motifs]. reflexivity.
+  - destruct (IH (pos + 1) ltac:(lia)) as [I1 I2]. destruct f; cbn [runs trues app].
+    + split.
+      * rewrite (I2 pos ltac:(lia)). reflexivity.
+      * intros q Hq. rewrite (I2 q ltac:(lia)). unfold take_motifs. cbn [flat_map]. rewrite app_assoc. f_equal.
+        apply (msub_split s (q * m) (pos * m) ((pos + 1) * m)); nia.
+    + split; [apply I1|]. intros q Hq. cbn [flat_map fst snd app]. now rewrite I1.
+Qed.
+
+Lemma segs_ok_weaken n cs : forall s s', s <= s' -> segs_ok s' n cs -> segs_ok s n cs.
+Proof. destruct cs as [|[a b] t]; intros s s' H Hok; [exact I|]. cbn [segs_ok] in *. intuition lia. Qed.
+
+Lemma runs_segs m N : 0 < m -> forall fl pos, 0 <= pos -> (pos + zlen fl) * m <= N ->
+  segs_ok (pos * m) N (runs m pos None fl) /\
+  forall q, 0 <= q < pos -> segs_ok (q * m) N (runs m pos (Some (q * m)) fl).
+Proof.
+  intros Hm. induction fl as [|f t IH]; intros pos Hpos Hle.
+  - split; [exact I|]. intros q Hq. cbn [runs segs_ok]. unfold zlen in Hle. cbn [length] in Hle. repeat split; nia.
+  - rewrite zlen_cons' in Hle. pose proof (zlen_nonneg t) as Ht.
+    destruct (IH (pos + 1) ltac:(lia) ltac:(nia)) as [I1 I2]. destruct f; cbn [runs].
+    + split; [apply (I2 pos); lia|]. intros q Hq. apply (I2 q). lia.
+    + split.
+      * cbn [app]. apply (segs_ok_weaken N _ (pos * m) ((pos + 1) * m)); [nia|exact I1].
+      * intros q Hq. cbn [app segs_ok]. repeat split; try nia.
+        apply (segs_ok_weaken N _ (pos * m) ((pos + 1) * m)); [nia|exact I1].
+Qed.
+
+Lemma zrange_aux_len s n : zlen (zrange_aux s n) = Z.of_nat n.
+Proof. unfold zlen. now rewrite zrange_aux_length. Qed.
+
+Lemma motif_count_rect m strs n : strs <> [] -> Forall (fun s => zlen s = n) strs -> motif_count m strs = n / m.
+Proof.
+  intros Hne H. destruct strs as [|s0 t]; [congruence|]. cbn [motif_count].
+  inversion H as [|? ? H0 Ht]; subst. clear H Hne.
+  induction Ht as [|u t Hu _ IH]; [reflexivity|]. cbn [fold_right]. rewrite IH, Hu. lia.
+Qed.
+
+Lemma al_filtered_spec vr a p m : AlnWF a -> 0 < m ->
+  match kept_motifs p m (astr a) with
+  | [] => al_filtered vr a p m = Err E_None
+  | js => exists a', al_filtered vr a p m = Ok a' /\ AlnWF a' /\ al_kind a' = al_kind a /\
+                     astr a' = map_rows (take_motifs m js) (astr a) /\ map fst a' = map fst a
+  end.
+Proof.
+  intros Ha Hm. unfold al_filtered. replace (m <=? 0) with false by lia.
+  pose proof Ha as (Hne & Hwf & Hr).
+  assert (Hs : map (fun nr => row_gapped (snd nr)) a = srows (astr a)).
+  { unfold srows, astr. rewrite map_map. apply map_ext_in. intros [n r] Hin. cbn [snd].
+    apply row_gapped_spec. apply (AlnWF_In a n r Ha Hin). }
+  rewrite Hs.
+  assert (Hc : motif_count m (srows (astr a)) = slen (astr a) / m).
+  { apply motif_count_rect.
+    - unfold srows, astr. destruct a; [congruence|discriminate].
+    - unfold srows. rewrite Forall_map. exact Hr. }
+  rewrite Hc.
+  set (P := fun j => s_eval_pred p (motif_col m (astr a) j)).
+  set (c := slen (astr a) / m).
+  change (map (fun j => eval_pred p (motif_column m (srows (astr a)) j)) (zrange 0 c)) with (map P (zrange 0 c)).
+  unfold kept_motifs. fold P c. unfold zrange. rewrite <- (trues_map P (Z.to_nat (c - 0)) 0).
+  set (fl := map P (zrange_aux 0 (Z.to_nat (c - 0)))).
+  pose proof (slen_nonneg (astr a)) as Hn0.
+  assert (Hc0 : 0 <= c) by (apply Z.div_pos; lia).
+  assert (Hfl : zlen fl = c) by (unfold fl; rewrite zlen_map, zrange_aux_len; lia).
+  destruct (trues 0 fl) as [|j js] eqn:Et.
+  - rewrite (gv_nil m fl 0 Et). reflexivity.
+  - destruct (pair_up_gv m fl 0) as [Hp _].
+    assert (Hrn : runs m 0 None fl <> []) by (apply runs_nonnil; rewrite Et; discriminate).
+    destruct (gv_loop m 0 false fl) as [|g0 gv'] eqn:Eg; [cbn [pair_up] in Hp; congruence|].
+    rewrite Hp.
+    destruct (runs_segs m (slen (astr a)) Hm fl 0 ltac:(lia)) as [Hsegs _].
+    { rewrite Hfl. unfold c. pose proof (Z.mul_div_le (slen (astr a)) m Hm). lia. }
+    rewrite <- Et.
+    apply (map_rowsM_spec _ (take_motifs m (trues 0 fl)) (al_kind a) a Ha (uniform_take_motifs m _)).
+    intros r W K L. pose proof (AlnWF_row_len a r Ha W L) as Hl.
+    destruct (row_getitem_locs_spec vr r (runs m 0 None fl) W Hrn) as (r' & E & W' & K' & S).
+    { rewrite Hl. exact Hsegs. }
+    exists r'. split; [exact E|]. split; [exact W'|]. split; [congruence|]. rewrite S.
+    apply (runs_flat (row_str r) m Hm fl 0). lia.
+Qed.
+
+(** * Part D — every operation of the annotatable class is the string operation *)
+
+(** the inputs the theorem covers (the rest is rejected by the class with an
+    exception, answered outside Python's conventions, or - in the pinned
+    variants - wrong: see the [_refuted] lemmas) *)
+Definition op_ok (vr : variant) (k : kind) (s : salign) (o : aop) : Prop :=
+  let n := slen s in
+  match o with
+  | OSlice x y => in_py_range n x /\ in_py_range n y
+  | OSliceStep _ _ _ => False
+  | OIndex i => (if v_negidx vr then - n <= i else 0 <= i) /\ i < n
+  | ORc => k <> KOther
+  | OAddSelf => v_noshortcut vr = true
+  | OAddRows rows => exists m, Forall (fun t => zlen t = m) rows
+  | OAddSlices x y x' y' => (- n <= x <= n /\ - n <= y <= n) /\ (- n <= x' <= n /\ - n <= y' <= n)
+  | OTakePos cols negate => Forall (fun i => 0 <= i < n) cols /\ (negate = true -> v_negate_ok vr = true \/ k = KOther)
+  | OTakeSeqs _ _ => True
+  | OFilter _ _ => True
+  | ODegapRel _ => True
+  | OSample locs m => 0 < m /\ Forall (fun l => 0 <= l /\ (l + 1) * m <= n) locs
+  | OToRna | OToDna => k <> KOther
+  | OToType => True
+  | OWindow _ _ _ => True
+  end.
+
+Lemma zlen_astr a : zlen (astr a) = zlen a.
+Proof. unfold astr. apply zlen_map. Qed.
+
+Lemma existsb_in_range n cols : Forall (fun i => 0 <= i < n) cols ->
+  existsb (fun i => (i <? - n) || (i >=? n)) cols = false /\ map (fun i => if i <? 0 then i + n else i) cols = cols.
+Proof.
+  induction 1 as [|i l Hi _ [IH1 IH2]]; [split; reflexivity|]. cbn [existsb map]. rewrite IH1, IH2.
+  replace (i <? - n) with false by lia. replace (i >=? n) with false by lia. replace (i <? 0) with false by lia.
+  split; reflexivity.
+Qed.
+
+Lemma map_fst_len {A B} (a : list (Z * A)) (b : list (Z * B)) : map fst a = map fst b -> zlen a = zlen b.
+Proof. intros H. unfold zlen. rewrite <- (map_length fst a), <- (map_length fst b), H. reflexivity. Qed.
+
+Lemma forallb_find_eq a names :
+  forallb (fun x => match find_row x (astr a) with Some _ => true | None => false end) names
+  = forallb (fun x => match find_orow x a with Some _ => true | None => false end) names.
+Proof.
+  induction names as [|x t IHn]; [reflexivity|]. cbn [forallb]. rewrite IHn. f_equal.
+  rewrite find_row_astr. destruct (find_orow x a); reflexivity.
+Qed.
+
+Theorem al_apply_spec vr a o : AlnWF a -> op_ok vr (al_kind a) (astr a) o ->
+  match spec_apply (al_kind a) (astr a) o with
+  | Ok ks => exists a', al_apply vr a o = Ok a' /\ AlnWF a' /\ al_kind a' = fst ks /\ astr a' = snd ks
+  | Err e => al_apply vr a o = Err e
+  end.
+Proof.
+  intros Ha Hok. pose proof Ha as (Hne & Hwf & Hr).
+  destruct o as [x y|x y c|i| | |rows|x y x' y'|cols negate|names negate|p m|x|locs m| | | |w st i];
+    cbn [op_ok] in Hok; cbn [spec_apply al_apply fst snd].
+  - (* slice *)
+    destruct Hok as [Hx Hy]. destruct (al_slice_spec vr a x y Ha Hx Hy) as (a' & E & W & K & S & _). exists a'. auto.
+  - contradiction.
+  - (* index *)
+    destruct Hok as [Hlo Hhi].
+    assert (E0 : (i <? - slen (astr a)) || (i >=? slen (astr a)) = false).
+    { destruct (v_negidx vr); lia. }
+    rewrite E0.
+    destruct (al_index_spec vr a i Ha Hlo Hhi) as (a' & E & W & K & S & _). exists a'. auto.
+  - (* rc *)
+    destruct (al_kind a) eqn:Ek; try congruence; cbn [nucleic_kind];
+      destruct (al_rc_spec a Ha ltac:(congruence)) as (a' & E & W & K & S & _); exists a'; rewrite Ek in *; auto.
+  - (* aln + aln *)
+    destruct (al_add_spec vr true a a Ha (AlnWF_rows a Ha) Hr eq_refl (or_intror Hok)) as (c & E & W & K & S & _).
+    exists c. rewrite zip_app_self in S. auto.
+  - (* aln + other *)
+    rewrite zlen_astr. destruct (zlen rows =? zlen a) eqn:El; cbn [negb]; [|reflexivity].
+    destruct Hok as (mm & Hrows).
+    destruct (rebuild_spec (al_kind a) (map fst a) rows mm) as (b & Eb & Wb & Kb & Sb & Nb).
+    { destruct a; [congruence|discriminate]. }
+    { rewrite map_length. unfold zlen in El. lia. }
+    { exact Hrows. }
+    rewrite Eb. cbn [bind].
+    destruct (al_add_spec vr false a b Ha (AlnWF_rows b Wb) ltac:(apply Wb)) as (c & E & W & K & S & _).
+    { apply map_fst_len. now rewrite Nb. }
+    { left. reflexivity. }
+    exists c. rewrite Sb, srows_combine in S by (rewrite map_length; unfold zlen in El; lia). auto.
+  - (* aln[x:y] + aln[x':y'] *)
+    destruct Hok as [(A1 & A2) (B1 & B2)].
+    destruct (al_slice_spec vr a (Some x) (Some y) Ha A1 A2) as (a1 & E1 & W1 & K1 & S1 & N1).
+    destruct (al_slice_spec vr a (Some x') (Some y') Ha B1 B2) as (a2 & E2 & W2 & K2 & S2 & N2).
+    rewrite E1. cbn [bind]. rewrite E2. cbn [bind].
+    destruct (al_add_spec vr false a1 a2 W1 (AlnWF_rows a2 W2) ltac:(apply W2)) as (c & E & W & K & S & _).
+    { apply map_fst_len. now rewrite N1, N2. }
+    { left. reflexivity. }
+    exists c. rewrite S1, S2, zip_app_map_rows in S. split; [exact E|]. split; [exact W|]. split; [congruence|exact S].
+  - (* take_positions *)
+    destruct Hok as [Hc Hn].
+    destruct (al_take_positions_spec vr a cols negate Ha Hc Hn) as (a' & E & W & K & S & _).
+    destruct negate.
+    + exists a'. auto.
+    + destruct (existsb_in_range _ _ Hc) as [E1 E2]. rewrite E1, E2. exists a'. auto.
+  - (* take_seqs *)
+    destruct negate.
+    + pose proof (al_takeseqs_negate_spec a names Ha) as H.
+      destruct (filter (fun nr => negb (zmem (fst nr) names)) (astr a)) as [|s0 s'] eqn:Ef.
+      * rewrite H. reflexivity.
+      * destruct H as (a' & E & W & K & S).
+        destruct (filter (fun nr => negb (zmem (fst nr) names)) a) as [|r0 r'] eqn:Efa.
+        { unfold mk_align in E. cbn [one_length] in E. discriminate. }
+        exists a'. auto.
+    + rewrite (forallb_find_eq a names). destruct (forallb _ names) eqn:Ef; [|reflexivity].
+      destruct names as [|x0 t]; [reflexivity|].
+      destruct (al_takeseqs_spec a (x0 :: t) Ha ltac:(discriminate) Ef) as (E & W & K & S).
+      eexists. split; [exact E|]. split; [exact W|]. split; [exact K|exact S].
+  - (* filtered *)
+    destruct (m <=? 0) eqn:Em.
+    + unfold al_filtered. rewrite Em. reflexivity.
+    + pose proof (al_filtered_spec vr a p m Ha ltac:(lia)) as H.
+      destruct (kept_motifs p m (astr a)) as [|j js]; [exact H|].
+      destruct H as (a' & E & W & K & S & _). exists a'. auto.
+  - (* get_degapped_relative_to *)
+    rewrite find_row_astr. destruct (find_orow x a) as [ref|] eqn:Ef; cbn [option_map]; [|reflexivity].
+    destruct (al_degaprel_spec vr a x ref Ha Ef) as (a' & E & W & K & S & _). exists a'. auto.
+  - (* sample *)
+    destruct Hok as [Hm Hl].
+    destruct (al_sample_spec vr a locs m Ha Hm Hl) as (a' & E & W & K & S & _). exists a'. auto.
+  - (* to_rna *)
+    destruct (al_kind a) eqn:Ek; try congruence.
+    + destruct (al_to_kind_spec a KRna Ha ltac:(congruence) ltac:(discriminate)) as (a' & E & W & K & S & _).
+      rewrite Ek in S. exists a'. auto.
+    + exists a. rewrite <- Ek. auto.
+  - (* to_dna *)
+    destruct (al_kind a) eqn:Ek; try congruence.
+    + exists a. rewrite <- Ek. auto.
+    + destruct (al_to_kind_spec a KDna Ha ltac:(congruence) ltac:(discriminate)) as (a' & E & W & K & S & _).
+      rewrite Ek in S. exists a'. auto.
+  - (* to_type *)
+    destruct (al_totype_spec a Ha) as (a' & E & W & K & S & _). exists a'. auto.
+  - (* sliding_windows *)
+    rewrite (al_len_slen a Ha).
+    change (s_n_windows (slen (astr a)) w st) with (n_windows (slen (astr a)) w st).
+    destruct ((0 <=? i) && (i <? n_windows (slen (astr a)) w st) && (0 <? w) && (0 <? st)) eqn:Ec; [|reflexivity].
+    destruct (al_window_spec vr a w st i Ha Ec) as (a' & E & W & K & S & _). exists a'. auto.
+Qed.
+
+(** ** chains of operations *)
+Fixpoint chain_ok (vr : variant) (st : kind * salign) (ops : list aop) : Prop :=
+  match ops with
+  | [] => True
+  | o :: t => op_ok vr (fst st) (snd st) o /\ chain_ok vr (spec_keep st o) t
+  end.
+
+Theorem al_run_spec vr ops : forall a, AlnWF a -> chain_ok vr (al_kind a, astr a) ops ->
+  AlnWF (al_run vr a ops) /\
+  (al_kind (al_run vr a ops), astr (al_run vr a ops)) = spec_run ops (al_kind a, astr a).
+Proof.
+  induction ops as [|o t IH]; intros a Ha Hc.
+  - split; [exact Ha|reflexivity].
+  - cbn [chain_ok fst snd] in Hc. destruct Hc as [Hok Hc].
+    unfold al_run, spec_run. cbn [fold_left]. fold (al_run vr (al_keep vr a o) t). fold (spec_run t (spec_keep (al_kind a, astr a) o)).
+    pose proof (al_apply_spec vr a o Ha Hok) as H.
+    unfold al_keep, spec_keep in *. cbn [fst snd] in *.
+    destruct (spec_apply (al_kind a) (astr a) o) as [[k' s']|e].
+    + destruct H as (a' & E & W & K & S). rewrite E. cbn [fst snd] in K, S. subst k' s'. apply IH; assumption.
+    + rewrite H. apply IH; assumption.
+Qed.
+
+(** the initial alignment built from named strings *)
+Lemma combine_split_id {A B} (l : list (A * B)) : combine (map fst l) (map snd l) = l.
+Proof. induction l as [|[x y] l IH]; [reflexivity|]. cbn [map combine fst snd]. now rewrite IH. Qed.
+
+Theorem al_init_spec k rows n : rows <> [] -> Forall (fun nr => zlen (snd nr) = n) rows ->
+  exists a, al_init k rows = Ok a /\ AlnWF a /\ al_kind a = k /\ astr a = rows.
+Proof.
+  intros Hne Hn. unfold al_init.
+  destruct (rebuild_spec k (map fst rows) (map snd rows) n) as (a & E & W & K & S & _).
+  - destruct rows; [congruence|discriminate].
+  - now rewrite !map_length.
+  - rewrite Forall_map. exact Hn.
+  - exists a. rewrite combine_split_id in S. auto.
+Qed.
+
+(** [to_dict()] as the code computes it ([get_gapped_seq] of every row) *)
+Lemma al_strings_spec a : AlnWF a -> al_strings a = astr a.
+Proof.
+  intros Ha. unfold al_strings, astr. apply map_ext_in. intros [n r] Hin. cbn [fst snd]. f_equal.
+  apply row_gapped_spec. apply (AlnWF_In a n r Ha Hin).
+Qed.
+
+(** rows of a reachable alignment are equally long, and [len(aln)] is that length *)
+Lemma al_rows_equal_length a : AlnWF a ->
+  Forall (fun nr => zlen (row_gapped (snd nr)) = al_len a /\ row_len (snd nr) = al_len a) a.
+Proof.
+  intros Ha. apply Forall_forall. intros [n r] Hin. cbn [snd].
+  destruct (AlnWF_In a n r Ha Hin) as (W & _ & L). rewrite (al_len_slen a Ha), (row_gapped_spec r W).
+  split; [exact L|]. now rewrite <- (zlen_row_str r W).
+Qed.
+
+(** ** the pinned variants violate the unguarded statements: witnesses *)
+
+Definition witness_rows : list (Z * list Z) := [(0, [84; 65; 67; 45; 84]); (1, [84; 45; 67; 71; 84])].  (* TAC-T / T-CGT *)
+
+Definition strings_after (vr : variant) (o : aop) : res (list (Z * list Z)) :=
+  bind (al_init KDna witness_rows) (fun a => bind (al_apply vr a o) (fun a' => Ok (al_strings a'))).
+
+(** C03-1: [aln + aln] through the [self.data is other.data] shortcut gives ragged, wrong rows *)
+Lemma add_self_witness :
+  strings_after pinned OAddSelf = Ok [(0, [84; 65; 67; 45; 84; 45]); (1, [84; 45; 67; 71; 84; 45])] /\
+  spec_apply KDna witness_rows OAddSelf
+  = Ok (KDna, [(0, [84; 65; 67; 45; 84; 84; 65; 67; 45; 84]); (1, [84; 45; 67; 71; 84; 84; 45; 67; 71; 84])]).
+Proof. split; vm_compute; reflexivity. Qed.
+
+(** C03-2: [take_positions(negate=True)] raises for a DNA alignment *)
+Lemma take_positions_negate_witness :
+  strings_after pinned (OTakePos [0] true) = Err E_Type /\
+  spec_apply KDna witness_rows (OTakePos [0] true) = Ok (KDna, [(0, [65; 67; 45; 84]); (1, [45; 67; 71; 84])]).
+Proof. split; vm_compute; reflexivity. Qed.
+
+(** C03-3: [aln[-1]] is empty instead of the last column *)
+Lemma index_negative_witness :
+  strings_after pinned (OIndex (-1)) = Ok [(0, []); (1, [])] /\
+  spec_apply KDna witness_rows (OIndex (-1)) = Ok (KDna, [(0, [84]); (1, [84])]).
+Proof. split; vm_compute; reflexivity. Qed.
+
+(** C08-1 seen through the alignment: [aln[:9]] reports 9 columns *)
+Lemma slice_beyond_len_witness :
+  bind (al_init KDna witness_rows) (fun a => bind (al_apply pinned a (OSlice None (Some 9))) (fun a' => Ok (al_len a'))) = Ok 9 /\
+  spec_apply KDna witness_rows (OSlice None (Some 9)) = Ok (KDna, witness_rows).
+Proof. split; vm_compute; reflexivity. Qed.
+
+(** the repaired variants answer these four as the strings do *)
+Lemma repaired_witnesses :
+  Forall (fun o => bind (strings_after repaired o) (fun s => Ok (KDna, s)) = spec_apply KDna witness_rows o)
+         [OAddSelf; OTakePos [0] true; OIndex (-1); OSlice None (Some 9)].
+Proof. repeat constructor; vm_compute; reflexivity. Qed.
+
+(** the hypotheses are satisfiable: a non-trivial chain within the guard *)
+Example chain_example :
+  exists a, al_init KDna witness_rows = Ok a /\ AlnWF a /\
+    chain_ok pinned (al_kind a, astr a)
+      [OSlice (Some 1) (Some 4); ORc; OTakePos [2; 0] false; OFilter (PGapFrac [45; 63] 0 1) 1; OAddSlices 0 1 0 1].
+Proof.
+  destruct (al_init_spec KDna witness_rows 5) as (a & E & W & K & S).
+  - discriminate.
+  - repeat constructor.
+  - exists a. split; [exact E|]. split; [exact W|]. rewrite K, S.
+    cbn [chain_ok].
+    repeat match goal with |- context [spec_keep (?k, ?r) ?o] =>
+      let v := eval vm_compute in (spec_keep (k, r) o) in change (spec_keep (k, r) o) with v end.
+    cbn [op_ok fst snd in_py_range]. cbn.
+    repeat split; try lia; try discriminate; try (intros; discriminate); repeat constructor; try lia.
+Qed.
+
+(** * Part E — no character is altered other than by complementing or the T/U exchange *)
+
+Definition chars (a : salign) : list Z := concat (srows a).
+Definition added (o : aop) : list Z := match o with OAddRows rows => concat rows | _ => [] end.
+
+Lemma In_firstn {A} (l : list A) : forall n y, In y (firstn n l) -> In y l.
+Proof. induction l as [|x l IH]; intros [|n] y H; cbn [firstn] in H; try contradiction. destruct H as [->|H]; [left; reflexivity|right; eapply IH; eauto]. Qed.
+
+Lemma In_skipn {A} (l : list A) : forall n y, In y (skipn n l) -> In y l.
+Proof. induction l as [|x l IH]; intros [|n] y H; cbn [skipn] in H; try contradiction; try exact H. right. eapply IH; eauto. Qed.
+
+Lemma In_ssub s x y c : In c (ssub s x y) -> In c s.
+Proof. unfold ssub. intros H. eapply In_skipn, In_firstn, H. Qed.
+
+Lemma In_zget {A} (l : list A) i y : In y (zget l i) -> In y l.
+Proof.
+  unfold zget. destruct (i <? 0); [contradiction|]. destruct (nth_error l (Z.to_nat i)) as [x|] eqn:E; [|contradiction].
+  intros [<-|[]]. eapply nth_error_In; eauto.
+Qed.
+
+Lemma In_py_slice {A} (l : list A) a b c y : In y (py_slice l a b c) -> In y l.
+Proof.
+  rewrite py_slice_unfold. unfold gather. intros H. apply in_flat_map in H. destruct H as (i & _ & H). eapply In_zget; eauto.
+Qed.
+
+Definition sub_chars (g : list Z -> list Z) : Prop := forall s y, In y (g s) -> In y s.
+
+Lemma sub_chars_flat_map {I} (f : I -> list Z -> list Z) l : (forall i, sub_chars (f i)) -> sub_chars (fun s => flat_map (fun i => f i s) l).
+Proof. intros Hf s y H. apply in_flat_map in H. destruct H as (i & _ & H). eapply Hf; eauto. Qed.
+
+Lemma chars_map_rows (R : Z -> Z -> Prop) g a :
+  (forall s y, In y (g s) -> exists x, In x s /\ R x y) ->
+  forall y, In y (chars (map_rows g a)) -> exists x, In x (chars a) /\ R x y.
+Proof.
+  intros Hg y H. unfold chars, srows, map_rows in *. rewrite map_map in H. cbn [snd] in H.
+  apply in_concat in H. destruct H as (t & Ht & Hy). apply in_map_iff in Ht. destruct Ht as ([n s] & <- & Hin).
+  cbn [snd] in Hy. destruct (Hg s y Hy) as (x & Hx & HR). exists x. split; [|exact HR].
+  apply in_concat. exists s. split; [|exact Hx]. apply in_map_iff. exists (n, s). auto.
+Qed.
+
+Lemma chars_sub g a : sub_chars g -> forall y, In y (chars (map_rows g a)) -> In y (chars a).
+Proof.
+  intros Hg y H. destruct (chars_map_rows eq g a) with (y := y) as (x & Hx & <-); [|exact H|exact Hx].
+  intros s z Hz. exists z. split; [apply Hg, Hz|reflexivity].
+Qed.
+
+Lemma chars_subset (a b : salign) : (forall x, In x b -> In x a) -> forall y, In y (chars b) -> In y (chars a).
+Proof.
+  intros Hs y H. unfold chars, srows in *. apply in_concat in H. destruct H as (t & Ht & Hy).
+  apply in_map_iff in Ht. destruct Ht as (nr & <- & Hin). apply in_concat. exists (snd nr). split; [|exact Hy].
+  apply in_map, Hs, Hin.
+Qed.
+
+Lemma chars_zip_app a : forall rows y, In y (chars (zip_app a rows)) -> In y (chars a ++ concat rows).
+Proof.
+  induction a as [|[n s] a IH]; intros rows y H; [contradiction|]. destruct rows as [|t rows]; [contradiction|].
+  unfold chars, srows in *. cbn [zip_app map snd concat] in *. rewrite in_app_iff in H. rewrite !in_app_iff.
+  destruct H as [H|H].
+  - rewrite in_app_iff in H. destruct H as [H|H]; [left; left; exact H|right; left; exact H].
+  - specialize (IH rows y H). rewrite in_app_iff in IH. destruct IH as [IH|IH]; [left; right; exact IH|right; right; exact IH].
+Qed.
+
+Lemma find_row_In x a s : find_row x a = Some s -> In (x, s) a.
+Proof.
+  unfold find_row. induction a as [|[n s0] t IH]; [discriminate|]. cbn [filter fst].
+  destruct (n =? x) eqn:E.
+  - intros H. injection H as <-. left. f_equal. lia.
+  - intros H. right. apply IH, H.
+Qed.
+
+Theorem chars_preserved_lemma k a o k' a' : spec_apply k a o = Ok (k', a') ->
+  forall y, In y (chars a') -> exists x, In x (chars a ++ added o) /\ derived k x y.
+Proof.
+  intros H y Hy.
+  assert (Hid : forall z, In z (chars a) -> exists x, In x (chars a ++ added o) /\ derived k x z).
+  { intros z Hz. exists z. split; [apply in_or_app; left; exact Hz|left; reflexivity]. }
+  destruct o as [x y0|x y0 c|i| | |rows|x y0 x' y'|cols negate|names negate|p m|x|locs m| | | |w st i]; cbn [spec_apply] in H.
+  - injection H as <- <-. apply Hid. revert Hy. apply chars_sub. intros s z. apply In_py_slice.
+  - destruct (c =? 0); [discriminate|]. injection H as <- <-. apply Hid. revert Hy. apply chars_sub. intros s z. apply In_py_slice.
+  - destruct ((i <? - slen a) || (i >=? slen a)); [discriminate|]. injection H as <- <-. apply Hid. revert Hy.
+    apply chars_sub. intros s z. apply In_ssub.
+  - destruct (nucleic_kind k); [|discriminate]. injection H as <- <-.
+    destruct (chars_map_rows (fun x z => z = comp k x) (rc_str k) a) with (y := y) as (x & Hx & ->); [|exact Hy|].
+    + intros s z Hz. unfold rc_str in Hz. apply in_map_iff in Hz. destruct Hz as (x & <- & Hx). exists x.
+      split; [apply in_rev, Hx|reflexivity].
+    + exists x. split; [apply in_or_app; left; exact Hx|right; left; reflexivity].
+  - injection H as <- <-. apply Hid. revert Hy. apply chars_sub. intros s z Hz. apply in_app_or in Hz. tauto.
+  - destruct (negb (zlen rows =? zlen a)); [discriminate|]. injection H as <- <-.
+    exists y. split; [apply chars_zip_app, Hy|left; reflexivity].
+  - injection H as <- <-. apply Hid. revert Hy. apply chars_sub. intros s z Hz. apply in_app_or in Hz.
+    destruct Hz as [Hz|Hz]; eapply In_py_slice; eauto.
+  - destruct negate.
+    + injection H as <- <-. apply Hid. revert Hy. apply chars_sub. unfold drop_cols.
+      intros s z Hz. apply in_flat_map in Hz. destruct Hz as (i & _ & Hz).
+      destruct (zmem i cols); [contradiction|eapply In_ssub; eauto].
+    + destruct (existsb _ cols); [discriminate|]. injection H as <- <-. apply Hid. revert Hy. apply chars_sub.
+      unfold take_cols. apply (sub_chars_flat_map (fun i s => ssub s i (i + 1))). intros i s z. apply In_ssub.
+  - destruct negate.
+    + destruct (filter _ a) as [|r0 r] eqn:Ef; [discriminate|]. injection H as <- <-. apply Hid. revert Hy.
+      apply chars_subset. intros z Hz. rewrite <- Ef in Hz. apply filter_In in Hz. apply Hz.
+    + destruct (forallb _ names); [|discriminate]. destruct names as [|n0 t]; [discriminate|]. injection H as <- <-.
+      apply Hid. revert Hy. apply chars_subset. intros [n s] Hz.
+      change (In (n, s) (flat_map (fun x => match find_row x a with Some s => [(x, s)] | None => [] end) (n0 :: t))) in Hz.
+      apply in_flat_map in Hz. destruct Hz as (x & _ & Hx).
+      destruct (find_row x a) as [s0|] eqn:Ef; [|contradiction]. destruct Hx as [Hx|[]]. injection Hx as <- <-.
+      apply find_row_In, Ef.
+  - destruct (m <=? 0); [discriminate|]. destruct (kept_motifs p m a) as [|j js]; [discriminate|]. injection H as <- <-.
+    apply Hid. revert Hy. apply chars_sub. unfold take_motifs.
+    apply (sub_chars_flat_map (fun j s => ssub s (j * m) ((j + 1) * m))). intros i s z. apply In_ssub.
+  - destruct (find_row x a); [|discriminate]. injection H as <- <-. apply Hid. revert Hy. apply chars_sub.
+    unfold take_cols. apply (sub_chars_flat_map (fun i s => ssub s i (i + 1))). intros i s z. apply In_ssub.
+  - injection H as <- <-. apply Hid. revert Hy. apply chars_sub. unfold take_motifs.
+    apply (sub_chars_flat_map (fun j s => ssub s (j * m) ((j + 1) * m))). intros i s z. apply In_ssub.
+  - destruct k; try discriminate; injection H as <- <-.
+    + destruct (chars_map_rows (fun x z => z = t2u x) t2u_str a) with (y := y) as (x & Hx & ->); [|exact Hy|].
+      * intros s z Hz. apply in_map_iff in Hz. destruct Hz as (x & <- & Hx). exists x. auto.
+      * exists x. split; [apply in_or_app; left; exact Hx|right; right; left; reflexivity].
+    + apply Hid, Hy.
+  - destruct k; try discriminate; injection H as <- <-.
+    + apply Hid, Hy.
+    + destruct (chars_map_rows (fun x z => z = u2t x) u2t_str a) with (y := y) as (x & Hx & ->); [|exact Hy|].
+      * intros s z Hz. apply in_map_iff in Hz. destruct Hz as (x & <- & Hx). exists x. auto.
+      * exists x. split; [apply in_or_app; left; exact Hx|right; right; right; reflexivity].
+  - injection H as <- <-. apply Hid, Hy.
+  - destruct (_ && _); [|discriminate]. injection H as <- <-. apply Hid. revert Hy. apply chars_sub. intros s z. apply In_ssub.
+Qed.
+
+
+(** the same for the model: what an operation of the annotatable class returns
+    is made of the characters it was given *)
+Theorem model_chars_preserved vr a o a' : AlnWF a -> op_ok vr (al_kind a) (astr a) o -> al_apply vr a o = Ok a' ->
+  forall y, In y (chars (al_strings a')) ->
+  exists x, In x (chars (al_strings a) ++ added o) /\ derived (al_kind a) x y.
+Proof.
+  intros Ha Hok E y Hy. pose proof (al_apply_spec vr a o Ha Hok) as H.
+  destruct (spec_apply (al_kind a) (astr a) o) as [[k' s']|e] eqn:Es.
+  - destruct H as (a'' & E' & W & K & S). rewrite E in E'. injection E' as <-. cbn [snd] in S.
+    rewrite (al_strings_spec a' W), S in Hy. rewrite (al_strings_spec a Ha).
+    apply (chars_preserved_lemma _ _ _ _ _ Es y Hy).
+  - rewrite E in H. discriminate.
+Qed.
